@@ -299,6 +299,7 @@ enum TokKind {
     SealProto,
     SealExpire,
     WrongHost,
+    WrongPort,
     MultiHost,
     SameIdAsPrev,
 }
@@ -317,6 +318,18 @@ struct Net {
 struct HsState {
     connected: Vec<u64>,
     srv_addrs: Vec<String>,
+    /// counter that decides which genuine requests get trailing bytes
+    pad: usize,
+    /// clients whose own request has reached the server from their own address
+    own_seen: HashSet<u64>,
+    /// clients whose token was first presented by somebody else (it is bound to that address now)
+    hijacked: HashSet<u64>,
+    /// client ids whose session the server has ended once (a later attempt of that client object is another story:
+    /// it may still be answering the old challenge, its replay window knows the old session's sequence numbers)
+    ended: HashSet<u64>,
+    /// addresses the server has sent a ConnectionDenied to (the client behind it gives up when it gets it, and goes on
+    /// answering a void challenge when it does not)
+    denied: HashSet<String>,
 }
 
 fn track_result(st: &mut HsState, out: &str) {
@@ -331,6 +344,7 @@ fn track_result(st: &mut HsState, out: &str) {
         }
         ["disconnected", id, ..] => {
             if let Some(id) = p_u64(id) {
+                st.ended.insert(id);
                 st.connected.retain(|x| *x != id);
             }
         }
@@ -347,9 +361,21 @@ fn deliver(sc: &mut Sc, st: &mut HsState, cls: &[Cl], k: usize, redirect: bool, 
                 return; // sent to an address nobody listens on
             }
             if let Some(cl) = cls.iter().find(|x| x.h == c) {
-                let (out, e) = sc.opd(&format!("srv-rx 0 {} {}", cl.addr, hex(&dg.bytes)));
+                // (now and then a genuine request arrives with trailing bytes: still a request)
+                let mut bytes = dg.bytes.clone();
+                if bytes.len() >= 1078 && bytes[0] & 0xf == 0 {
+                    st.own_seen.insert(c);
+                }
+                if bytes.len() == 1078 && bytes[0] & 0xf == 0 && st.pad % 5 == 4 {
+                    bytes.extend(vec![0xabu8; [1usize, 300, 322][(st.pad / 5) % 3]]);
+                }
+                st.pad += 1;
+                let (out, e) = sc.opd(&format!("srv-rx 0 {} {}", cl.addr, hex(&bytes)));
                 track_result(st, &out);
                 if let Some(e) = e {
+                    if sc.hist[e].bytes.first().map(|b| b & 0xf) == Some(1) {
+                        st.denied.insert(cl.addr.clone());
+                    }
                     net.q.push((e, tick));
                 }
             }
@@ -387,6 +413,7 @@ fn script_handshake(rng: &mut Rng, tier: Tier, f: &mut dyn FnMut(&str) -> String
     sc.op(&format!("srv-new 0 {} {} {} {} {} {} {}", now0_us, max, proto, secure as u8, hex(&if secure { key } else { k32(rng) }), hex(&ckey), srv_addrs.join(",")));
     let n_clients = rng.range(1, 4) as usize;
     let mut cls: Vec<Cl> = vec![];
+    let mut kinds: Vec<TokKind> = vec![];
     for i in 0..n_clients {
         let kind = rng.pick(&[
             TokKind::Valid,
@@ -402,10 +429,14 @@ fn script_handshake(rng: &mut Rng, tier: Tier, f: &mut dyn FnMut(&str) -> String
             TokKind::SealProto,
             TokKind::SealExpire,
             TokKind::WrongHost,
+            TokKind::WrongPort,
             TokKind::MultiHost,
             TokKind::SameIdAsPrev,
         ]);
         let mut spec = base_spec(rng, 1000 + i as u64, proto, key, now_s, &srv_addrs.join(","));
+        if rng.chance(1, 8) {
+            spec.timeout = rng.pick(&[0i32, -1]); // no timeout at all: only the token's expiry ends an attempt
+        }
         match kind {
             TokKind::Valid => {}
             TokKind::ExpiredAt(d) => {
@@ -423,6 +454,13 @@ fn script_handshake(rng: &mut Rng, tier: Tier, f: &mut dyn FnMut(&str) -> String
             TokKind::SealExpire => spec.seal_expire = spec.expire + 1,
             // (against a wildcard public address: another machine with the SAME port)
             TokKind::WrongHost => spec.addrs = if wild { a4(10, 99, 99, 99, 5000) } else { BOGUS_A.to_string() },
+            // the server's host with another port: a different public address
+            TokKind::WrongPort => {
+                spec.addrs = match srv_addrs[0].rsplit_once(':') {
+                    Some((head, _)) => format!("{}:5999", head),
+                    None => BOGUS_A.to_string(),
+                }
+            }
             TokKind::MultiHost => {
                 // 2..4 addresses, only one of them (at a random position) is the server's
                 let n = rng.range(2, 4) as usize;
@@ -456,10 +494,13 @@ fn script_handshake(rng: &mut Rng, tier: Tier, f: &mut dyn FnMut(&str) -> String
         let out = sc.op(&format!("cli-new {} {} {}", i, now0_us, tok.hex));
         if out == "ok" {
             cls.push(Cl { h: i as u64, addr, tok });
+            kinds.push(kind);
         }
     }
     sc.op("note setup-done");
-    let mut st = HsState { connected: vec![], srv_addrs };
+    let mut st = HsState { connected: vec![], srv_addrs, pad: 0, own_seen: HashSet::new(), hijacked: HashSet::new(), ended: HashSet::new(), denied: HashSet::new() };
+    let mut srv_now_us = now0_us;
+    let mut limit = max.min(1024);
     let mut net = Net { q: vec![] };
     let loss = rng.pick(&[0u64, 0, 1, 2, 4]); // out of 8
     let dup = rng.pick(&[0u64, 1, 2]);
@@ -473,6 +514,7 @@ fn script_handshake(rng: &mut Rng, tier: Tier, f: &mut dyn FnMut(&str) -> String
             rng.pick(&[100_000u64, 249_999, 250_000, 250_001, 300_000, 500_000, 0])
         };
         sc.op(&format!("srv-upd 0 {}", dt));
+        srv_now_us += dt;
         if !st.connected.is_empty() {
             sc.op("srv-dump 0");
         }
@@ -485,10 +527,14 @@ fn script_handshake(rng: &mut Rng, tier: Tier, f: &mut dyn FnMut(&str) -> String
         }
         for i in 0..cls.len() {
             let cdt = if rng.chance(1, 10) { dt + 1000 } else { dt };
-            if rng.chance(1, 6) {
+            let bracket = rng.chance(1, 6);
+            if bracket {
                 sc.op(&format!("cli-dump {}", cls[i].h));
             }
             let (_, e) = sc.opd(&format!("cli-upd {} {}", cls[i].h, cdt));
+            if bracket {
+                sc.op(&format!("cli-dump {}", cls[i].h));
+            }
             if let Some(e) = e {
                 net.q.push((e, tick));
             }
@@ -527,7 +573,9 @@ fn script_handshake(rng: &mut Rng, tier: Tier, f: &mut dyn FnMut(&str) -> String
         // application-level actions
         match rng.below(16) {
             0 => {
-                sc.op(&format!("srv-setmax 0 {}", rng.pick(&[0usize, 1, 2, 3, 5, 1024, 2000])));
+                let m = rng.pick(&[0usize, 1, 2, 3, 5, 1024, 2000]);
+                sc.op(&format!("srv-setmax 0 {}", m));
+                limit = m.min(1024);
             }
             1 if rng.chance(1, 3) => {
                 if let Some(id) = st.connected.first().cloned() {
@@ -575,7 +623,13 @@ fn script_handshake(rng: &mut Rng, tier: Tier, f: &mut dyn FnMut(&str) -> String
                 let reqs: Vec<Vec<u8>> = sc.hist.iter().filter(|d| matches!(d.from, Src::Cli(_)) && d.bytes.len() >= 1078 && d.bytes[0] & 0xf == 0).map(|d| d.bytes.clone()).collect();
                 if !reqs.is_empty() {
                     let d = rng.pick(&reqs);
-                    let from = a4(172, 16, 0, rng.range(1, 3) as u8, 4700);
+                    for c in cls.iter() {
+                        if d.len() >= 1078 && c.tok.private[..] == d[54..1078] && !st.own_seen.contains(&c.h) {
+                            st.hijacked.insert(c.h);
+                        }
+                    }
+                    // (an address of its own, or the host of one of the clients with another port)
+                    let from = if rng.chance(1, 3) { a4(10, 0, 0, rng.range(1, 3) as u8, 4999) } else { a4(172, 16, 0, rng.range(1, 3) as u8, 4700) };
                     let (out, e) = sc.opd(&format!("srv-rx 0 {} {}", from, hex(&d)));
                     track_result(&mut st, &out);
                     let _ = e; // nobody listens at that address
@@ -608,6 +662,78 @@ fn script_handshake(rng: &mut Rng, tier: Tier, f: &mut dyn FnMut(&str) -> String
                 sc.op(&format!("srv-q 0 {}", cls[c].tok.spec.id));
             }
         }
+    }
+    // ---- heal: whatever was lost, duplicated or reordered so far, from here on every datagram of the client under
+    // consideration is delivered at once, in 250 ms rounds. An honest client with a valid, unexpired token of its own
+    // id and address that has not given up, with a seat free below the limit, is connected on both sides after six rounds.
+    for ci in 0..cls.len() {
+        let (h, id, addr) = (cls[ci].h, cls[ci].tok.spec.id, cls[ci].addr.clone());
+        let unique = cls.iter().filter(|x| x.tok.spec.id == id).count() == 1 && cls.iter().filter(|x| x.addr == addr).count() == 1;
+        let valid = kinds.get(ci) == Some(&TokKind::Valid) && !st.hijacked.contains(&h) && !st.ended.contains(&id) && srv_now_us / 1_000_000 + 3 < cls[ci].tok.spec.expire;
+        if !unique || !valid {
+            continue;
+        }
+        if st.denied.contains(&addr) {
+            continue;
+        }
+        let q = sc.op(&format!("cli-q {}", h));
+        let server_has = st.connected.contains(&id);
+        if field(&q, "disconnected") == Some("1") || (field(&q, "connected") == Some("1") && !server_has) {
+            continue;
+        }
+        // (a client that has gone back to REQUESTING — next address after a lost connect keep-alive — while the server
+        // still holds its session is ignored by the server until that session times out: not a handshake to be healed)
+        if server_has && field(&sc.op(&format!("cli-dump {}", h)), "state") == Some("SendingConnectionRequest") {
+            continue;
+        }
+        // the client must have at least 600 ms of its timeout on the current address left
+        let idle_ns = field(&q, "idle").and_then(|x| x.parse::<u128>().ok()).unwrap_or(u128::MAX);
+        let t = cls[ci].tok.spec.timeout;
+        if t > 0 && idle_ns.saturating_add(600_000_000) >= t as u128 * 1_000_000_000 {
+            continue;
+        }
+        if !server_has && st.connected.len() >= limit {
+            continue;
+        }
+        for _ in 0..6 {
+            sc.op("srv-upd 0 250000");
+            srv_now_us += 250_000;
+            for cid in st.connected.clone() {
+                let (out, e) = sc.opd(&format!("srv-updc 0 {}", cid));
+                track_result(&mut st, &out);
+                if let Some(k) = e {
+                    let dg = sc.hist[k].clone();
+                    for x in cls.iter().filter(|x| x.addr == dg.to) {
+                        sc.op(&format!("cli-rx {} {}", x.h, hex(&dg.bytes)));
+                    }
+                }
+            }
+            let mut out_k = sc.opd(&format!("cli-upd {} 250000", h)).1;
+            let mut hops = 0;
+            while let Some(k) = out_k {
+                hops += 1;
+                let d = sc.hist[k].bytes.clone();
+                let (out, e) = sc.opd(&format!("srv-rx 0 {} {}", addr, hex(&d)));
+                track_result(&mut st, &out);
+                out_k = None;
+                if let Some(k2) = e {
+                    let r = sc.hist[k2].bytes.clone();
+                    sc.op(&format!("cli-rx {} {}", h, hex(&r)));
+                    if hops < 3 {
+                        out_k = sc.opd(&format!("cli-upd {} 0", h)).1;
+                    }
+                }
+            }
+        }
+        let q = sc.op(&format!("cli-q {}", h));
+        if field(&q, "disconnected") == Some("1") && field(&q, "reason") != Some("ConnectionTimedOut") && field(&q, "reason") != Some("ConnectionRequestTimedOut") && field(&q, "reason") != Some("ConnectionResponseTimedOut") {
+            // (kicked or refused in the meantime by something the script did earlier: not a stalled handshake)
+            continue;
+        }
+        sc.op("note expect-up:handshake-stalled");
+        sc.op(&format!("cli-q {}", h));
+        sc.op("note expect-up:handshake-stalled");
+        sc.op(&format!("srv-q 0 {}", id));
     }
     sc.op("srv-dump 0");
     for c in cls.iter() {
@@ -907,6 +1033,7 @@ fn mixed_window(sc: &mut Sc, rng: &mut Rng, cls: &[Cl]) -> u64 {
                 let d = sc.hist[k].bytes.clone();
                 generated += 1;
                 if j == 256 || rng.chance(1, 16) {
+                    sc.op("note expect-payload");
                     sc.op(&format!("srv-rx 0 {} {}", c.addr, hex(&d)));
                 }
                 if j == 256 || j % 64 == 1 || rng.chance(1, 8) {
@@ -926,6 +1053,7 @@ fn mixed_window(sc: &mut Sc, rng: &mut Rng, cls: &[Cl]) -> u64 {
             if let (_, Some(k)) = sc.opd(&format!("srv-pay 0 {} {}", id, hex(&body))) {
                 let d = sc.hist[k].bytes.clone();
                 if j == 256 || rng.chance(1, 16) {
+                    sc.op("note expect-payload");
                     sc.op(&format!("cli-rx {} {}", c.h, hex(&d)));
                 }
                 if j == 256 || j % 64 == 1 || rng.chance(1, 8) {
@@ -1365,6 +1493,28 @@ fn script_hostile(rng: &mut Rng, tier: Tier, f: &mut dyn FnMut(&str) -> String) 
             let chal = sc.hist[k].bytes.clone();
             sc.op(&format!("cli-rx {} {}", cls[1].h, hex(&chal)));
             genuine.push((chal, false, 1));
+            // its genuine response is withheld; what reaches the server first are corrupted versions of it: mutated, one
+            // bit of the echoed challenge flipped, the challenge sequence off by one, truncated
+            if let (_, Some(k)) = sc.opd(&format!("cli-upd {} 0", cls[1].h)) {
+                let resp = sc.hist[k].bytes.clone();
+                genuine.push((resp.clone(), true, 1));
+                let c2s = cls[1].tok.spec.c2s;
+                if let Some((3, seq, body)) = try_open(&resp, srv.proto, &c2s) {
+                    let mut bad: Vec<Vec<u8>> = vec![mutate(rng, &resp), resp[..resp.len() - 1].to_vec()];
+                    bad.push(forge(3, seq + 1, srv.proto, &c2s, &flip_bit(&body, 64 + rng.below(300 * 8) as usize)));
+                    if body.len() == 308 {
+                        let mut b2 = body.clone();
+                        let cs = u64::from_le_bytes(b2[..8].try_into().unwrap()).wrapping_add(1);
+                        b2[..8].copy_from_slice(&cs.to_le_bytes());
+                        bad.push(forge(3, seq + 2, srv.proto, &c2s, &b2));
+                    }
+                    for d in bad.iter() {
+                        if rng.chance(2, 3) {
+                            hostile_srv(&mut sc, "hostile", &cls[1].addr.clone(), d);
+                        }
+                    }
+                }
+            }
         }
     }
     sc.op(&format!("cli-disc {}", cls[3].h));
@@ -1403,6 +1553,26 @@ fn script_hostile(rng: &mut Rng, tier: Tier, f: &mut dyn FnMut(&str) -> String) 
             let c = rng.below(4);
             hostile_cli(&mut sc, "hostile", c, &d);
         }
+        if rng.chance(1, 10) {
+            // the owner of the half-open handshake sends session packets (authentic under its key, but there is no
+            // session): no answer
+            let body = if rng.chance(1, 2) { vec![0u8; 8] } else { rng.payload(9) };
+            let d = forge(rng.pick(&[4u8, 5, 6]), rng.range(5, 400), srv.proto, &cls[1].tok.spec.c2s, &body);
+            sc.op(&format!("srv-rx 0 {} {}", cls[1].addr, hex(&d)));
+        }
+        if rng.chance(1, 6) {
+            // genuine traffic of the connected session in between: accepted as ever
+            if let (_, Some(k)) = sc.opd(&format!("cli-pay {} {}", cls[0].h, hex(&rng.payload(7)))) {
+                let d = sc.hist[k].bytes.clone();
+                sc.op("note expect-payload");
+                sc.op(&format!("srv-rx 0 {} {}", cls[0].addr, hex(&d)));
+            }
+            if let (_, Some(k)) = sc.opd(&format!("srv-pay 0 {} {}", cls[0].tok.spec.id, hex(&rng.payload(6)))) {
+                let d = sc.hist[k].bytes.clone();
+                sc.op("note expect-payload");
+                sc.op(&format!("cli-rx {} {}", cls[0].h, hex(&d)));
+            }
+        }
         if rng.chance(1, 8) {
             // the clock moves; state must stay as robust
             let dt = rng.pick(&[100_000u64, 250_000, 400_000]);
@@ -1415,9 +1585,10 @@ fn script_hostile(rng: &mut Rng, tier: Tier, f: &mut dyn FnMut(&str) -> String) 
     // genuine traffic is still accepted afterwards
     if let (_, Some(k)) = sc.opd(&format!("cli-pay {} {}", cls[0].h, hex(&rng.payload(10)))) {
         let d = sc.hist[k].bytes.clone();
+        sc.op("note expect-payload");
         sc.op(&format!("srv-rx 0 {} {}", cls[0].addr, hex(&d)));
     }
-    if let (_, Some(k)) = sc.opd(&format!("cli-upd {} 0", cls[1].h)) {
+    if let (_, Some(k)) = sc.opd(&format!("cli-upd {} 250000", cls[1].h)) {
         let d = sc.hist[k].bytes.clone();
         sc.op(&format!("srv-rx 0 {} {}", cls[1].addr, hex(&d)));
     }
@@ -1615,13 +1786,17 @@ fn script_attacker(rng: &mut Rng, _tier: Tier, f: &mut dyn FnMut(&str) -> String
         1 => {
             // one token presented from two addresses; then its response from the wrong one
             let (_, ch0) = srv_rx(&mut sc, &a[0], &reqs[0]);
+            // … one of them the SAME host on another port: the binding is to the socket address, not to the IP
+            let same_ip = a4(10, 3, 0, 1, 4399);
             srv_rx(&mut sc, &a[2], &reqs[0]);
+            srv_rx(&mut sc, &same_ip, &reqs[0]);
             srv_rx(&mut sc, &a[1], &reqs[0]);
             sc.op("srv-dump 0");
             if let Some(ch0) = ch0 {
                 sc.op(&format!("cli-rx 0 {}", hex(&ch0)));
                 if let (_, Some(k)) = sc.opd("cli-upd 0 0") {
                     let resp = sc.hist[k].bytes.clone();
+                    srv_rx(&mut sc, &same_ip, &resp);
                     srv_rx(&mut sc, &a[2], &resp);
                     srv_rx(&mut sc, &a[0], &resp);
                     srv_rx(&mut sc, &a[2], &reqs[0]);
@@ -2222,7 +2397,7 @@ fn script_attacker(rng: &mut Rng, _tier: Tier, f: &mut dyn FnMut(&str) -> String
             // A's request is answered, the challenge is lost; an eavesdropper replays the clear-text request byte for byte
             // from B: nothing, and nothing changes (the token stays bound to A); A retransmits and is challenged again;
             // the replay from B again: nothing; A completes
-            let b = a4(10, 3, 0, 9, 4309);
+            let b = if rng.chance(1, 2) { a4(10, 3, 0, 9, 4309) } else { a4(10, 3, 0, 1, 4399) }; // (or A's host, another port)
             srv_rx(&mut sc, &a[0], &reqs[0]);
             let n = rng.range(1, 3);
             for _ in 0..n {
@@ -2584,7 +2759,7 @@ fn script_wire(rng: &mut Rng, tier: Tier, f: &mut dyn FnMut(&str) -> String) {
                         0 => {
                             if kind != 0 {
                                 sc.op("note mutated");
-                                sc.op(&format!("nc-dec {} {} - {}", proto.wrapping_add(1), key_hex, h));
+                                sc.op(&format!("nc-dec {} {} - {}", proto ^ (1u64 << rng.below(64)), key_hex, h));
                             }
                         }
                         1 => {
@@ -2646,7 +2821,18 @@ fn script_wire(rng: &mut Rng, tier: Tier, f: &mut dyn FnMut(&str) -> String) {
                 // malformed input: every prefix byte x assorted lengths
                 let d = junk(rng);
                 let k = if rng.chance(3, 4) { key_hex.clone() } else { "-".to_string() };
-                sc.op(&format!("nc-dec {} {} {} {}", proto, k, rng.pick(&["-", "n", "n,0", "n,1000"]), hex(&d)));
+                let out = sc.op(&format!("nc-dec {} {} {} {}", proto, k, rng.pick(&["-", "n", "n,0", "n,1000"]), hex(&d)));
+                if let Some(rest) = out.strip_prefix("ok ") {
+                    // ok <seq> <packet term> rp=…   (junk that decodes is a connection request: not sealed)
+                    if let (Some((seq, term)), true) = (rest.split_once(" rp=").and_then(|x| x.0.split_once(' ')), rest.contains(" req ")) {
+                        let _ = seq;
+                        sc.op("note rt2");
+                        let w = sc.op(&format!("nc-enc 1400 {} - - {}", proto, term));
+                        if let Some(h) = w.strip_prefix("ok ") {
+                            sc.op(&format!("nc-dec {} {} - {}", proto, k, h));
+                        }
+                    }
+                }
             }
             6 => {
                 // replay window on its own
@@ -2722,11 +2908,11 @@ fn script_wire(rng: &mut Rng, tier: Tier, f: &mut dyn FnMut(&str) -> String) {
                         }
                         1 => {
                             sc.op("note mutated");
-                            sc.op(&format!("ptok-open {} {} {} {} {}", proto.wrapping_add(1), expire, hex(&xnonce), key_hex, p));
+                            sc.op(&format!("ptok-open {} {} {} {} {}", proto ^ (1u64 << rng.below(64)), expire, hex(&xnonce), key_hex, p));
                         }
                         2 => {
                             sc.op("note mutated");
-                            sc.op(&format!("ptok-open {} {} {} {} {}", proto, expire.wrapping_add(1), hex(&xnonce), key_hex, p));
+                            sc.op(&format!("ptok-open {} {} {} {} {}", proto, expire ^ (1u64 << rng.below(64)), hex(&xnonce), key_hex, p));
                         }
                         3 => {
                             sc.op("note mutated");
@@ -2813,7 +2999,15 @@ fn script_wire(rng: &mut Rng, tier: Tier, f: &mut dyn FnMut(&str) -> String) {
                 if rng.chance(1, 6) {
                     t.extend(rng.bytes(10)); // trailing bytes are ignored
                 }
-                sc.op(&format!("tok-read {}", hex(&t)));
+                let out = sc.op(&format!("tok-read {}", hex(&t)));
+                if let Some(fields) = out.strip_prefix("ok ") {
+                    // whatever decodes re-encodes to bytes that decode to the same value
+                    sc.op("note rt2");
+                    let w = sc.op(&format!("tok-write {}", fields));
+                    if let Some(h) = w.strip_prefix("ok ") {
+                        sc.op(&format!("tok-read {}", h));
+                    }
+                }
                 sc.op(&format!("cli-new 9 0 {}", hex(&t)));
                 sc.op(&format!("cli-upd 9 {}", rng.pick(&[0u64, 1_000_000, 6_000_000])));
                 sc.op(&format!("cli-upd 9 {}", rng.pick(&[0u64, 1_000_000, 6_000_000])));
@@ -2837,7 +3031,15 @@ fn script_wire(rng: &mut Rng, tier: Tier, f: &mut dyn FnMut(&str) -> String) {
                 let xnonce = k24(rng);
                 let expire = rng.pick(&[0u64, 1_758_700_030]);
                 let sealed = forge_private(&plain, proto, expire, &xnonce, &key);
-                sc.op(&format!("ptok-open {} {} {} {} {}", proto, expire, hex(&xnonce), key_hex, hex(&sealed)));
+                let out = sc.op(&format!("ptok-open {} {} {} {} {}", proto, expire, hex(&xnonce), key_hex, hex(&sealed)));
+                if let Some(fields) = out.strip_prefix("ok ") {
+                    // ok <id> <timeout> <addrs> <c2s> <s2c> <ud>  ->  ptok-seal … <id> <timeout> <addrs> <c2s> <s2c> <ud>
+                    sc.op("note rt2");
+                    let w = sc.op(&format!("ptok-seal {} {} {} {} {}", proto, expire, hex(&xnonce), key_hex, fields));
+                    if let Some(h) = w.strip_prefix("ok ") {
+                        sc.op(&format!("ptok-open {} {} {} {} {}", proto, expire, hex(&xnonce), key_hex, h));
+                    }
+                }
             }
         }
     }
@@ -2848,7 +3050,7 @@ fn script_wire(rng: &mut Rng, tier: Tier, f: &mut dyn FnMut(&str) -> String) {
 // profile 0: nc-regress — one fixed op list per repaired defect (deterministic, run on every check)
 // =============================================================================================
 
-const REGRESS_CASES: usize = 44;
+const REGRESS_CASES: usize = 52;
 
 fn regress_script(case: usize, f: &mut dyn FnMut(&str) -> String) {
     let mut rng = Rng::new(0xD1CE + case as u64);
@@ -2866,7 +3068,7 @@ fn regress_script(case: usize, f: &mut dyn FnMut(&str) -> String) {
     };
     let max = match case {
         7 | 19 | 22 | 37 => 1,
-        35 => 4,
+        35 | 50 => 4,
         13 => 3,
         _ => 2,
     };
@@ -4296,6 +4498,202 @@ fn regress_script(case: usize, f: &mut dyn FnMut(&str) -> String) {
                 sc.op("srv-dump 0");
             }
         }
+        // a half-open handshake whose token expires (second 7) before the response arrives: the response completes nothing;
+        // the control (token valid until second 35) answers just as late and connects
+        44 => {
+            let mut spec = base_spec(rng, 67, proto, key, 5, &hosts);
+            spec.expire = 7;
+            spec.seal_expire = 7;
+            spec.timeout = 15;
+            let a = a4(10, 9, 0, 91, 4991);
+            let mut chal: Vec<(u64, String, Vec<u8>)> = vec![];
+            if let Some(c) = new_client(&mut sc, 5, &a, &spec, 5_000_000) {
+                for (h, ad) in [(c.h, c.addr.clone()), (0u64, cls[0].addr.clone())] {
+                    if let (_, Some(k)) = sc.opd(&format!("cli-upd {} 0", h)) {
+                        let req = sc.hist[k].bytes.clone();
+                        if let (_, Some(k)) = sc.opd(&format!("srv-rx 0 {} {}", ad, hex(&req))) {
+                            chal.push((h, ad, sc.hist[k].bytes.clone()));
+                        }
+                    }
+                }
+            }
+            sc.op("srv-dump 0");
+            sc.op("srv-upd 0 3000001");
+            sc.op("srv-dump 0");
+            for (h, ad, ch) in chal.iter() {
+                answer_challenge(&mut sc, *h, ad, ch, None);
+                sc.op("srv-dump 0");
+            }
+            sc.op("note expect-up:valid-half-open-lost");
+            sc.op("srv-q 0 40");
+            sc.op("srv-q 0 67");
+        }
+        // retries: 45 = the challenge is lost twice, 46 = the response is lost twice, 47 = the connect keep-alive never
+        // arrives (the server's next regular keep-alive does the job); 250 ms rounds; connected on both sides in the end
+        45 | 46 | 47 => {
+            let c = &cls[0];
+            let mut lost = 0;
+            for _round in 0..8 {
+                sc.op("srv-upd 0 250000");
+                if let (_, Some(k)) = sc.opd("srv-updc 0 40") {
+                    let d = sc.hist[k].bytes.clone();
+                    sc.op(&format!("cli-rx 0 {}", hex(&d)));
+                }
+                let Some(k) = sc.opd("cli-upd 0 250000").1 else { continue };
+                let d = sc.hist[k].bytes.clone();
+                let is_resp = d[0] & 0xf == 3;
+                if case == 46 && is_resp && lost < 2 {
+                    lost += 1;
+                    continue; // the response is lost
+                }
+                let (out, e) = sc.opd(&format!("srv-rx 0 {} {}", c.addr, hex(&d)));
+                let Some(k) = e else { continue };
+                let r = sc.hist[k].bytes.clone();
+                if case == 45 && r[0] & 0xf == 2 && lost < 2 {
+                    lost += 1;
+                    continue; // the challenge is lost
+                }
+                if case == 47 && out.starts_with("connected ") {
+                    continue; // the connect keep-alive is lost
+                }
+                sc.op(&format!("cli-rx 0 {}", hex(&r)));
+                if let (_, Some(k)) = sc.opd("cli-upd 0 0") {
+                    let d = sc.hist[k].bytes.clone();
+                    if case == 46 && lost < 2 {
+                        lost += 1;
+                        continue;
+                    }
+                    if let (out, Some(k)) = sc.opd(&format!("srv-rx 0 {} {}", c.addr, hex(&d))) {
+                        if !(case == 47 && out.starts_with("connected ")) {
+                            let r = sc.hist[k].bytes.clone();
+                            sc.op(&format!("cli-rx 0 {}", hex(&r)));
+                        }
+                    }
+                }
+            }
+            sc.op("note expect-up:handshake-stalled");
+            sc.op("cli-q 0");
+            sc.op("note expect-up:handshake-stalled");
+            sc.op("srv-q 0 40");
+        }
+        // a connected client whose server sends PAYLOADS only (no keep-alive ever delivered) for 3 s, timeout 2 s:
+        // the client stays connected
+        48 => {
+            let mut spec = base_spec(rng, 68, proto, key, 5, &hosts);
+            spec.expire = 65;
+            spec.seal_expire = 65;
+            spec.timeout = 2;
+            if let Some(c) = new_client(&mut sc, 5, &a4(10, 9, 0, 92, 4992), &spec, 5_000_000) {
+                fast_connect(&mut sc, &c);
+                for j in 0..12u8 {
+                    sc.op("srv-upd 0 250000");
+                    if let (_, Some(k)) = sc.opd(&format!("cli-upd {} 250000", c.h)) {
+                        let d = sc.hist[k].bytes.clone();
+                        sc.op(&format!("srv-rx 0 {} {}", c.addr, hex(&d)));
+                    }
+                    if let (_, Some(k)) = sc.opd(&format!("srv-pay 0 68 {:02x}", j)) {
+                        let d = sc.hist[k].bytes.clone();
+                        sc.op("note expect-payload");
+                        sc.op(&format!("cli-rx {} {}", c.h, hex(&d)));
+                    }
+                    sc.op(&format!("cli-q {}", c.h));
+                }
+                sc.op("note expect-up:live-session-lost");
+                sc.op(&format!("cli-q {}", c.h));
+            }
+        }
+        // a connected client whose server has fallen silent; replays of everything the server ever sent it and junk
+        // arrive every 400 ms; the 2 s timeout fires all the same
+        49 => {
+            let mut spec = base_spec(rng, 69, proto, key, 5, &hosts);
+            spec.expire = 65;
+            spec.seal_expire = 65;
+            spec.timeout = 2;
+            if let Some(c) = new_client(&mut sc, 5, &a4(10, 9, 0, 93, 4993), &spec, 5_000_000) {
+                fast_connect(&mut sc, &c);
+                if let (_, Some(k)) = sc.opd("srv-pay 0 69 6869") {
+                    let d = sc.hist[k].bytes.clone();
+                    sc.op("note expect-payload");
+                    sc.op(&format!("cli-rx {} {}", c.h, hex(&d)));
+                }
+                let rec: Vec<Vec<u8>> = sc.hist.iter().filter(|d| d.from == Src::Srv(0)).map(|d| d.bytes.clone()).collect();
+                sc.op(&format!("cli-q {}", c.h));
+                for j in 0..7usize {
+                    sc.op(&format!("cli-upd {} 400000", c.h));
+                    hostile_cli(&mut sc, "hostile", c.h, &rec[j % rec.len()]);
+                    hostile_cli(&mut sc, "hostile", c.h, &vec![0x14u8 + (j as u8 % 3); 26]);
+                    sc.op(&format!("cli-q {}", c.h));
+                }
+                sc.op(&format!("cli-dump {}", c.h));
+            }
+        }
+        // limits lowered at run time with judged newcomers: 4 seats, 2 taken; limit 3: a newcomer gets in; limit 2 (three
+        // connected: nobody leaves, nobody gets in); two leave: the next newcomer gets in
+        50 => {
+            let mut extra: Vec<Cl> = vec![];
+            for j in 0..3u64 {
+                let mut spec = base_spec(rng, 72 + j, proto, key, 5, &hosts);
+                spec.expire = 65;
+                spec.seal_expire = 65;
+                spec.timeout = 5;
+                if let Some(c) = new_client(&mut sc, 5 + j, &a4(10, 9, 6, 10 + j as u8, 4910 + j as u16), &spec, 5_000_000) {
+                    extra.push(c);
+                }
+            }
+            fast_connect(&mut sc, &cls[0]);
+            fast_connect(&mut sc, &cls[1]);
+            if extra.len() == 3 {
+                sc.op("srv-setmax 0 3");
+                fast_connect(&mut sc, &extra[0]);
+                sc.op("note expect-up:refused-below-the-limit");
+                sc.op("srv-q 0 72");
+                sc.op("srv-setmax 0 2");
+                fast_connect(&mut sc, &extra[1]); // refused: three connected, limit two
+                sc.op("srv-q 0 73");
+                sc.op("cli-q 6");
+                sc.op("srv-disc 0 40");
+                sc.op("srv-disc 0 41");
+                sc.op("srv-dump 0");
+                fast_connect(&mut sc, &extra[2]); // one connected, limit two
+                sc.op("note expect-up:refused-below-the-limit");
+                sc.op("srv-q 0 74");
+                sc.op("note expect-up:refused-below-the-limit");
+                sc.op("cli-q 7");
+                for id in [40u64, 41, 72, 73, 74] {
+                    sc.op(&format!("srv-q 0 {}", id));
+                }
+            }
+        }
+        // keep-alive pacing at ticks around the 250 ms send rate, timeout 1 s: a session with lossless keep-alives in both
+        // directions stays up for 4 s of ticks of 100 / 249.999 / 250.001 / 400 ms
+        51 => {
+            let mut spec = base_spec(rng, 75, proto, key, 5, &hosts);
+            spec.expire = 65;
+            spec.seal_expire = 65;
+            spec.timeout = 1;
+            if let Some(c) = new_client(&mut sc, 5, &a4(10, 9, 0, 94, 4994), &spec, 5_000_000) {
+                fast_connect(&mut sc, &c);
+                for dt in [100_000u64, 249_999, 250_001, 400_000] {
+                    let mut t = 0u64;
+                    while t < 1_000_000 {
+                        t += dt;
+                        sc.op(&format!("srv-upd 0 {}", dt));
+                        if let (_, Some(k)) = sc.opd(&format!("cli-upd {} {}", c.h, dt)) {
+                            let d = sc.hist[k].bytes.clone();
+                            sc.op(&format!("srv-rx 0 {} {}", c.addr, hex(&d)));
+                        }
+                        if let (_, Some(k)) = sc.opd("srv-updc 0 75") {
+                            let d = sc.hist[k].bytes.clone();
+                            sc.op(&format!("cli-rx {} {}", c.h, hex(&d)));
+                        }
+                    }
+                    sc.op("note expect-up:live-session-lost");
+                    sc.op(&format!("cli-q {}", c.h));
+                    sc.op("note expect-up:live-session-lost");
+                    sc.op("srv-q 0 75");
+                }
+            }
+        }
         // sequence 2^64-1 (the window's EMPTY sentinel) from the owner of a session
         _ => {
             fast_connect(&mut sc, &cls[0]);
@@ -4363,18 +4761,39 @@ fn known_script(_case: usize, f: &mut dyn FnMut(&str) -> String) {
 }
 
 fn known_ops(case: usize) -> Vec<String> {
-    fixed_ops(case, known_script)
+    fixed_ops("known", case, known_script)
 }
 
 /// the op list of a regression case: the script is run once against a private implementation
 /// world only to obtain the datagrams it forwards (an unwind ends the list at the failing op)
 fn regress_ops(case: usize) -> Vec<String> {
-    fixed_ops(case, regress_script)
+    fixed_ops("regress", case, regress_script)
 }
 
-fn fixed_ops(case: usize, script: fn(usize, &mut dyn FnMut(&str) -> String)) -> Vec<String> {
+/// Number of ops each fixed script issues on the unchanged implementation (the scripts are run against the
+/// implementation to obtain the datagrams they forward, so their op lists depend on it: early exits, guarded blocks).
+/// A different number means the script took another path: the clause-specific part of the case may be missing.
+/// To refresh after editing a script: `NC_FIXED_COUNTS=1 harness run --props C10 --profiles nc-regress,…` prints them.
+fn fixed_expected(tag: &str, case: usize) -> Option<usize> {
+    const REGRESS: &[usize] = &[
+        30, 30, 30, 12, 16, 17, 24, 23, 30, 19, 21, 35, 33, 49, 551, 60, 85, 35, 50, 59, 69, 56, 43, 34, 26, 148, 104, 41, 49, 26, 44, 63, 36, 31, 38, 116, 26, 34, 70, 52, 541, 31, 42, 33, 30, 53, 52, 54, 103, 92, 63, 125,
+    ];
+    match tag {
+        "regress" => REGRESS.get(case).copied(),
+        "known" => Some(25),
+        "table-full" => Some(6159),
+        "pending-full" => Some(8273),
+        "entry-cursor" => Some(2073),
+        "prefix-sweep" => Some(8227),
+        "seq-wrap" => Some(16404),
+        _ => None,
+    }
+}
+
+/// every fixed case is framed: `note case <tag> <n>` … `note end-of-case <ops the script issued>`
+fn fixed_ops(tag: &str, case: usize, script: fn(usize, &mut dyn FnMut(&str) -> String)) -> Vec<String> {
     let mut world = NcWorld::default();
-    let mut ops: Vec<String> = vec![];
+    let mut ops: Vec<String> = vec![format!("note case {} {}", tag, case)];
     let mut dead = false;
     {
         let mut f = |op: &str| -> String {
@@ -4392,7 +4811,38 @@ fn fixed_ops(case: usize, script: fn(usize, &mut dyn FnMut(&str) -> String)) -> 
         };
         script(case, &mut f);
     }
+    let n = ops.len() - 1;
+    if std::env::var("NC_FIXED_COUNTS").is_ok() {
+        eprintln!("FIXED-COUNT {} {} {}", tag, case, n);
+    }
+    ops.push(format!("note end-of-case {}", n));
     ops
+}
+
+/// (all netcode properties) a fixed case ran its script to the end the way it does on the unchanged implementation: the
+/// number of ops the script issued is the recorded one. Judged only on intact traces (frame present, length = recorded
+/// number + 2), so a minimised trace is never a counterexample.
+fn oracle_fixed_complete(ops: &[String], outs: &[String]) -> Option<OracleFail> {
+    let _ = outs;
+    let first = toks(ops.first()?);
+    let last = toks(ops.last()?);
+    if first.len() != 4 || first[0] != "note" || first[1] != "case" || last.len() != 3 || last[1] != "end-of-case" {
+        return None;
+    }
+    let n = last[2].parse::<usize>().ok()?;
+    if ops.len() != n + 2 {
+        return None;
+    }
+    let case = first[3].parse::<usize>().ok()?;
+    let want = fixed_expected(first[2], case)?;
+    if n != want {
+        return fail(
+            ops.len() - 1,
+            &format!("fixed-script-diverged:{}:{}", first[2], case),
+            format!("the fixed case {} {} issued {} ops, on the unchanged implementation it issues {}: the script took another path (an exchange it relies on did not happen as scripted)", first[2], case, n, want),
+        );
+    }
+    None
 }
 
 
@@ -4733,7 +5183,7 @@ fn table_full_script(_case: usize, f: &mut dyn FnMut(&str) -> String) {
 }
 
 fn table_full_ops(case: usize) -> Vec<String> {
-    fixed_ops(case, table_full_script)
+    fixed_ops("table-full", case, table_full_script)
 }
 
 // =============================================================================================
@@ -4836,6 +5286,10 @@ fn pending_full_script(_case: usize, f: &mut dyn FnMut(&str) -> String) {
             answer_challenge(&mut sc, i as u64, &cls[i].addr.clone(), &ch, Some("expect-connected"));
         }
     }
+    for i in [0u64, 1, 3, 4, 5] {
+        sc.op("note expect-up:pending-table-blocked");
+        sc.op(&format!("srv-q 0 {}", 4300 + i));
+    }
     for i in 0..6u64 {
         sc.op(&format!("srv-q 0 {}", 4300 + i));
     }
@@ -4844,7 +5298,7 @@ fn pending_full_script(_case: usize, f: &mut dyn FnMut(&str) -> String) {
 }
 
 fn pending_full_ops(case: usize) -> Vec<String> {
-    fixed_ops(case, pending_full_script)
+    fixed_ops("pending-full", case, pending_full_script)
 }
 
 // =============================================================================================
@@ -4905,8 +5359,99 @@ fn entry_cursor_script(_case: usize, f: &mut dyn FnMut(&str) -> String) {
     sc.op("srv-q 0 8200");
 }
 
+// =============================================================================================
+// profile nc-prefix-sweep (C07, one fixed case): every prefix byte 0..=255 (packet type x announced sequence length) at
+// the lengths 18 / 34 / 326 / 1078, handed to the server from a connected, a pending and an unknown address and to a
+// connected, a responding, a requesting and a disconnected client — each bracketed by state dumps: nothing changes,
+// nothing is answered; genuine traffic afterwards is still accepted
+// =============================================================================================
+
+fn prefix_sweep_script(_case: usize, f: &mut dyn FnMut(&str) -> String) {
+    let mut rng = Rng::new(0x5EE9);
+    let rng = &mut rng;
+    let mut sc = Sc::new(f);
+    let key = k32(rng);
+    let ckey = k32(rng);
+    let proto = 7u64;
+    sc.op(&format!("srv-new 0 5000000 4 {} 1 {} {} {}", proto, hex(&key), hex(&ckey), SRV_A));
+    let mut cls: Vec<Cl> = vec![];
+    for i in 0..4u64 {
+        let mut spec = base_spec(rng, 8300 + i, proto, key, 5, SRV_A);
+        spec.expire = 605;
+        spec.seal_expire = 605;
+        spec.timeout = 15;
+        if let Some(c) = new_client(&mut sc, i, &a4(10, 14, 0, 1 + i as u8, 4140 + i as u16), &spec, 5_000_000) {
+            cls.push(c);
+        }
+    }
+    sc.op("note setup-done");
+    if cls.len() < 4 || !fast_connect(&mut sc, &cls[0]) {
+        return;
+    }
+    // c1: challenged, holds the challenge; c2: has sent its request (lost); c3: disconnected
+    let mut chal1: Option<Vec<u8>> = None;
+    if let (_, Some(k)) = sc.opd("cli-upd 1 0") {
+        let req = sc.hist[k].bytes.clone();
+        if let (_, Some(k)) = sc.opd(&format!("srv-rx 0 {} {}", cls[1].addr, hex(&req))) {
+            let ch = sc.hist[k].bytes.clone();
+            sc.op(&format!("cli-rx 1 {}", hex(&ch)));
+            chal1 = Some(ch);
+        }
+    }
+    sc.op("cli-upd 2 0");
+    sc.op("cli-disc 3");
+    let unknown = a4(192, 168, 9, 9, 9999);
+    for len in [18usize, 34, 326, 1078] {
+        for prefix in 0..=255u8 {
+            let mut d = rng.bytes(len);
+            d[0] = prefix;
+            match prefix % 7 {
+                0 => hostile_srv(&mut sc, "hostile", &cls[0].addr.clone(), &d),
+                1 => hostile_srv(&mut sc, "hostile", &cls[1].addr.clone(), &d),
+                2 => hostile_srv(&mut sc, "hostile", &unknown, &d),
+                k => hostile_cli(&mut sc, "hostile", (k - 3) as u64, &d),
+            };
+            // (each prefix meets each target once per 7 lengths-and-rounds: rotate)
+            let d2 = {
+                let mut x = rng.bytes(len);
+                x[0] = prefix;
+                x
+            };
+            match (prefix as usize + len) % 7 {
+                0 => hostile_srv(&mut sc, "hostile", &cls[0].addr.clone(), &d2),
+                1 => hostile_srv(&mut sc, "hostile", &cls[1].addr.clone(), &d2),
+                2 => hostile_srv(&mut sc, "hostile", &unknown, &d2),
+                k => hostile_cli(&mut sc, "hostile", (k - 3) as u64, &d2),
+            };
+        }
+    }
+    // genuine traffic afterwards
+    if let (_, Some(k)) = sc.opd("cli-pay 0 6f6b") {
+        let d = sc.hist[k].bytes.clone();
+        sc.op("note expect-payload");
+        sc.op(&format!("srv-rx 0 {} {}", cls[0].addr, hex(&d)));
+    }
+    if let (_, Some(k)) = sc.opd("srv-pay 0 8300 6f6b") {
+        let d = sc.hist[k].bytes.clone();
+        sc.op("note expect-payload");
+        sc.op(&format!("cli-rx 0 {}", hex(&d)));
+    }
+    if chal1.is_some() {
+        if let (_, Some(k)) = sc.opd("cli-upd 1 0") {
+            let d = sc.hist[k].bytes.clone();
+            sc.op(&format!("srv-rx 0 {} {}", cls[1].addr, hex(&d)));
+        }
+    }
+    sc.op("srv-dump 0");
+    sc.op("srv-q 0 8301");
+}
+
+fn prefix_sweep_ops(case: usize) -> Vec<String> {
+    fixed_ops("prefix-sweep", case, prefix_sweep_script)
+}
+
 fn entry_cursor_ops(case: usize) -> Vec<String> {
-    fixed_ops(case, entry_cursor_script)
+    fixed_ops("entry-cursor", case, entry_cursor_script)
 }
 
 // =============================================================================================
@@ -4976,7 +5521,7 @@ fn seq_wrap_script(_case: usize, f: &mut dyn FnMut(&str) -> String) {
 }
 
 fn seq_wrap_ops(case: usize) -> Vec<String> {
-    fixed_ops(case, seq_wrap_script)
+    fixed_ops("seq-wrap", case, seq_wrap_script)
 }
 
 // =============================================================================================
@@ -4989,7 +5534,7 @@ fn script_window(rng: &mut Rng, _tier: Tier, f: &mut dyn FnMut(&str) -> String) 
     let proto = rng.pick(&[0u64, 7, u64::MAX]);
     let key = hex(&k32(rng));
     for _ in 0..3 {
-        let s: u64 = rng.pick(&[600u64, 1000, 1 << 32, 1 << 63, u64::MAX - 600, 256 * 7, 255 + 512]);
+        let s: u64 = rng.pick(&[600u64, 1000, 1 << 32, 1 << 63, u64::MAX - 600, 256 * 7, 255 + 512, u64::MAX - 513, u64::MAX - 520]);
         let deltas: [i64; 11] = [0, 1, -1, 255, -255, 256, -256, 257, -257, 512, -512];
         let mut dgs: Vec<(String, u64, u8)> = vec![];
         let n = rng.range(5, 9);
@@ -5044,8 +5589,34 @@ fn oracle_window_once(ops: &[String], outs: &[String]) -> Option<OracleFail> {
         let dgs: Vec<&str> = t[3].split(',').collect();
         let res: Vec<&str> = o[0].split(',').collect();
         let mut accepted: HashSet<&str> = HashSet::new();
+        // converse ("a genuine packet is surfaced the first time it arrives provided its sequence number is less than 256
+        // behind the highest one already accepted"): sequence of each datagram = the <seq> of the `nc-enc` that made it
+        let seq_of: HashMap<&str, u128> = (0..i)
+            .filter_map(|k| {
+                let e = toks(&ops[k]);
+                if e.len() >= 6 && e[0] == "nc-enc" && e[4] == t[2] && e[2] == t[1] {
+                    Some((outs[k].strip_prefix("ok ")?, p_u64(e[3])? as u128))
+                } else {
+                    None
+                }
+            })
+            .collect();
+        // (judged only when the sequence of every datagram of the stream is known: a minimised trace is no counterexample)
+        let all_known = dgs.iter().all(|d| seq_of.contains_key(d));
+        let mut got: HashSet<u128> = HashSet::new();
+        let mut top: Option<u128> = None;
         for (j, d) in dgs.iter().enumerate() {
             let r = res.get(j).cloned().unwrap_or("");
+            if let (true, Some(q)) = (all_known, seq_of.get(d)) {
+                let fresh = !got.contains(q) && top.map(|m| q + 256 > m).unwrap_or(true);
+                if fresh && !r.starts_with("ok:") {
+                    return fail(i, "fresh-in-window-rejected:wire", format!("datagram #{} of the stream (sequence {}, never accepted before, highest accepted {:?}) was refused: {}", j, q, top, r));
+                }
+                if r.starts_with("ok:") {
+                    got.insert(*q);
+                    top = Some(top.map(|m| m.max(*q)).unwrap_or(*q));
+                }
+            }
             if r.starts_with("ok:") && (r.ends_with(":pay") || r.ends_with(":disc")) {
                 if !accepted.insert(d) {
                     return fail(i, "surfaced-twice:wire", format!("datagram #{} of the stream ({}) was decoded successfully a second time through the same replay window", j, r));
@@ -5082,7 +5653,7 @@ pub fn profiles() -> Vec<Profile> {
     vec![
         Profile {
             name: "nc-known",
-            props: &["C04"],
+            props: &["C04", "C19"],
             cases: |_| 1,
             new_world,
             script: |_, _, _| {},
@@ -5112,17 +5683,17 @@ pub fn profiles() -> Vec<Profile> {
         },
         Profile {
             name: "nc-handshake",
-            props: &["C05", "C10", "C18", "C19", "C17", "C13", "C07"],
+            props: &["C05", "C10", "C18", "C19", "C17", "C13", "C07", "C04"],
             cases: |t| if t == Tier::Thorough { 3000 } else { 300 },
             new_world,
             script: script_handshake,
             nontrivial: |t| any_out(t, "connected ") || any_out(t, "disconnected "),
-            keep: keep_setup,
+            keep: keep_liveness,
             fixed: None,
         },
         Profile {
             name: "nc-session",
-            props: &["C04", "C07", "C17", "C18", "C13", "C10"],
+            props: &["C04", "C07", "C17", "C18", "C13", "C10", "C05", "C19"],
             cases: |t| if t == Tier::Thorough { 2500 } else { 250 },
             new_world,
             script: script_session,
@@ -5132,7 +5703,7 @@ pub fn profiles() -> Vec<Profile> {
         },
         Profile {
             name: "nc-hostile",
-            props: &["C07", "C19", "C13"],
+            props: &["C07", "C19", "C13", "C04", "C05", "C10", "C17", "C18"],
             cases: |t| if t == Tier::Thorough { 3000 } else { 300 },
             new_world,
             script: script_hostile,
@@ -5172,6 +5743,16 @@ pub fn profiles() -> Vec<Profile> {
             fixed: Some(entry_cursor_ops),
         },
         Profile {
+            name: "nc-prefix-sweep",
+            props: &["C07"],
+            cases: |_| 1,
+            new_world,
+            script: |_, _, _| {},
+            nontrivial: |_| true,
+            keep: |ops| ops.len(),
+            fixed: Some(prefix_sweep_ops),
+        },
+        Profile {
             name: "nc-seq-wrap",
             props: &["C17"],
             cases: |_| 1,
@@ -5193,7 +5774,7 @@ pub fn profiles() -> Vec<Profile> {
         },
         Profile {
             name: "nc-failover",
-            props: &["C18", "C19", "C07", "C17"],
+            props: &["C18", "C19", "C07", "C17", "C04"],
             cases: |t| if t == Tier::Thorough { 2000 } else { 200 },
             new_world,
             script: script_failover,
@@ -5203,7 +5784,7 @@ pub fn profiles() -> Vec<Profile> {
         },
         Profile {
             name: "nc-attacker",
-            props: &["C05", "C10", "C07", "C19", "C20"],
+            props: &["C05", "C10", "C07", "C19", "C20", "C18", "C17"],
             cases: |t| if t == Tier::Thorough { 3000 } else { 300 },
             new_world,
             script: script_attacker,
@@ -5339,7 +5920,7 @@ fn hostile_noop(ops: &[String], outs: &[String]) -> Option<OracleFail> {
         if outs[j] != "none" {
             return fail(j, &format!("hostile-answered:{}", kind), format!("unauthentic datagram was answered with `{}`", trunc_s(&outs[j], 80)));
         }
-        if i >= 1 && j + 1 < ops.len() && j + 1 < outs.len() && ops[i - 1] == ops[j + 1] && ops[i - 1].contains("-dump ") {
+        if i >= 1 && j + 1 < ops.len() && j + 1 < outs.len() && ops[i - 1] == ops[j + 1] && (ops[i - 1].contains("-dump ") || ops[i - 1].starts_with("srv-q ") || ops[i - 1].starts_with("cli-q ")) {
             // the receive time of a pending (half-open) entry is not observable through the API
             let (da, db) = (without_pending_recv(&outs[i - 1]), without_pending_recv(&outs[j + 1]));
             if da != db {
@@ -5678,6 +6259,26 @@ fn parse_srv_dump(s: &str) -> Option<SrvDump> {
 // ----- C10: the connection table -----------------------------------------------------------------
 
 fn oracle_table(ops: &[String], outs: &[String]) -> Option<OracleFail> {
+    oracle_table_f(ops, outs, |_| true)
+}
+
+/// C05 ("a client is REPORTED connected only after …"): the lookups (`clients_id`, `is_client_connected`, `client_addr`,
+/// `user_data`) and the table name exactly the clients the justified `connected` events named
+fn oracle_reported_connected(ops: &[String], outs: &[String]) -> Option<OracleFail> {
+    oracle_table_f(ops, outs, |sig| sig == "events-table-mismatch" || sig == "lookup-mismatch")
+}
+
+/// `keep`: which failure classes are reported (the others are skipped and the walk goes on)
+fn oracle_table_f(ops: &[String], outs: &[String], keep: fn(&str) -> bool) -> Option<OracleFail> {
+    macro_rules! bail {
+        ($i:expr, $sig:expr, $msg:expr $(,)?) => {
+            if keep($sig) {
+                return fail($i, $sig, $msg);
+            }
+        };
+    }
+    // the largest limit ever in force (the table never shrinks and never grows beyond it)
+    let mut max_ever: HashMap<String, u64> = HashMap::new();
     // per server: limit history and event alternation
     let mut lowered: HashMap<String, bool> = HashMap::new();
     let mut cur_max: HashMap<String, u64> = HashMap::new();
@@ -5701,6 +6302,8 @@ fn oracle_table(ops: &[String], outs: &[String]) -> Option<OracleFail> {
                         protos.insert(s.clone(), p_u64(t[4]).unwrap_or(0));
                     }
                     cur_max.insert(s.clone(), p_u64(t[3]).unwrap_or(0));
+                    max_ever.insert(s.clone(), p_u64(t[3]).unwrap_or(0));
+                    how.retain(|k, _| k.0 != s);
                     lowered.insert(s.clone(), false);
                     connected.insert(s.clone(), HashSet::new());
                 }
@@ -5712,6 +6315,8 @@ fn oracle_table(ops: &[String], outs: &[String]) -> Option<OracleFail> {
                         lowered.insert(s.clone(), true);
                     }
                     cur_max.insert(s.clone(), n);
+                    let e = max_ever.entry(s.clone()).or_insert(0);
+                    *e = (*e).max(n);
                 }
             }
             "srv-rx" | "srv-updc" | "srv-disc" => {
@@ -5719,17 +6324,26 @@ fn oracle_table(ops: &[String], outs: &[String]) -> Option<OracleFail> {
                 if o.len() >= 3 && o[0] == "connected" {
                     let id = p_u64(o[1]).unwrap_or(0);
                     if !connected.entry(s.clone()).or_default().insert(id) {
-                        return fail(i, "connected-twice", format!("client {} reported connected while already connected", id));
+                        bail!(i, "connected-twice", format!("client {} reported connected while already connected", id));
                     }
                     if o.len() == 5 {
-                        how.insert((s.clone(), id), (o[2].to_string(), o[3].chars().take(16).collect()));
+                        how.insert((s.clone(), id), (o[2].to_string(), o[3].to_string()));
+                    }
+                    if t[0] == "srv-rx" && t.len() == 4 && o[2] != t[2] {
+                        bail!(i, "connected-other-address", format!("a datagram from {} made the server report client {} connected from {}", t[2], id, o[2]));
                     }
                     reported.retain(|k, _| k.0 != s);
+                    // whatever happened to the limit: never more sessions than the largest limit ever in force
+                    if let (Some(m), Some(c)) = (max_ever.get(&s), connected.get(&s)) {
+                        if c.len() as u64 > *m {
+                            bail!(i, "above-max-clients", format!("client {} was seated as connected client number {}, the limit never exceeded {}", id, c.len(), m));
+                        }
+                    }
                     // the bound, judged on the event stream against the limit reconstructed from the ops
                     // (srv-new / srv-setmax) — not against what the implementation reports about itself
                     if let (Some(false), Some(m), Some(c)) = (lowered.get(&s), cur_max.get(&s), connected.get(&s)) {
                         if c.len() as u64 > *m {
-                            return fail(
+                            bail!(
                                 i,
                                 "above-max-clients",
                                 format!("client {} was seated as connected client number {}, the limit is {} and was never lowered", id, c.len(), m),
@@ -5740,7 +6354,28 @@ fn oracle_table(ops: &[String], outs: &[String]) -> Option<OracleFail> {
                 if o.len() >= 3 && o[0] == "disconnected" {
                     let id = p_u64(o[1]).unwrap_or(0);
                     if !connected.entry(s.clone()).or_default().remove(&id) {
-                        return fail(i, "disconnected-without-connected", format!("client {} reported disconnected without being connected", id));
+                        bail!(i, "disconnected-without-connected", format!("client {} reported disconnected without being connected", id));
+                    }
+                    // … naming the same id and address, and for the reason the op gives
+                    if let Some((a, _)) = how.get(&(s.clone(), id)) {
+                        if o[2] != a.as_str() {
+                            bail!(i, "disconnected-wrong-address", format!("client {} was connected from {}, its disconnection names {}", id, a, o[2]));
+                        }
+                    }
+                    if (t[0] == "srv-disc" || t[0] == "srv-updc") && t.len() == 3 && p_u64(t[2]) != Some(id) {
+                        bail!(i, "disconnected-other-client", format!("`{} {}` ended the session of client {}", t[0], t[2], id));
+                    }
+                    if t[0] == "srv-rx" && t.len() == 4 {
+                        if o[2] != t[2] {
+                            bail!(i, "disconnected-other-client", format!("a datagram from {} ended the session of client {} at {}", t[2], id, o[2]));
+                        }
+                        // only that client's own Disconnect packet does this
+                        if let (Some(d), Some(proto)) = (p_hex(t[3]), protos.get(&s)) {
+                            let toks_all = tokens.get_or_insert_with(|| tokens_of(ops, outs, ops.len()));
+                            if toks_all.iter().any(|k| k.id == id) && !toks_all.iter().any(|k| k.id == id && matches!(try_open(&d, *proto, &k.c2s), Some((6, _, _)))) {
+                                bail!(i, "disconnected-without-disconnect-packet", format!("a datagram from {} that is not a Disconnect packet sealed under a key of client {} ended its session", t[2], id));
+                            }
+                        }
                     }
                     how.remove(&(s.clone(), id));
                     reported.retain(|k, _| k.0 != s);
@@ -5758,48 +6393,48 @@ fn oracle_table(ops: &[String], outs: &[String]) -> Option<OracleFail> {
                             _ => listed,
                         };
                         if listed != *c {
-                            return fail(i, "lookup-mismatch", format!("clients_id() = {:?} but the events say {:?} are connected", listed, c));
+                            bail!(i, "lookup-mismatch", format!("clients_id() = {:?} but the events say {:?} are connected", listed, c));
                         }
                         if let (Some(false), Some(m), Some(n)) = (lowered.get(&s), cur_max.get(&s), field(o, "n").and_then(p_u64)) {
                             if n > *m {
-                                return fail(i, "above-max-clients", format!("connected_clients() = {}, the limit is {} and was never lowered", n, m));
+                                bail!(i, "above-max-clients", format!("connected_clients() = {}, the limit is {} and was never lowered", n, m));
                             }
                         }
                         let conn = field(o, "conn") == Some("1");
                         if conn != c.contains(&id) {
-                            return fail(i, "lookup-mismatch", format!("is_client_connected({}) = {} but the events say {}", id, conn, c.contains(&id)));
+                            bail!(i, "lookup-mismatch", format!("is_client_connected({}) = {} but the events say {}", id, conn, c.contains(&id)));
                         }
                         if (field(o, "addr") != Some("-")) != c.contains(&id) {
-                            return fail(i, "lookup-mismatch", format!("client_addr({}) = {:?} but the events say connected = {}", id, field(o, "addr"), c.contains(&id)));
+                            bail!(i, "lookup-mismatch", format!("client_addr({}) = {:?} but the events say connected = {}", id, field(o, "addr"), c.contains(&id)));
                         }
                         // lookups by id refer to the session that was authenticated for that id
                         if let (true, Some((a, ud))) = (c.contains(&id), how.get(&(s.clone(), id))) {
                             if field(o, "addr") != Some(a.as_str()) {
-                                return fail(i, "lookup-mismatch", format!("client_addr({}) = {:?}, the session was reported connected from {}", id, field(o, "addr"), a));
+                                bail!(i, "lookup-mismatch", format!("client_addr({}) = {:?}, the session was reported connected from {}", id, field(o, "addr"), a));
                             }
                             if field(o, "ud").map(|u| u != ud.as_str()).unwrap_or(false) {
-                                return fail(i, "lookup-mismatch", format!("user_data({}) = {:?}…, the session was reported connected with {}…", id, field(o, "ud"), ud));
+                                bail!(i, "lookup-mismatch", format!("user_data({}) = {:?}…, the session was reported connected with {}…", id, field(o, "ud"), ud));
                             }
                         }
                         // the addresses reported for different connected ids are pairwise distinct
                         if let (true, Some(a)) = (c.contains(&id), field(o, "addr")) {
                             if let Some(((_, other), _)) = reported.iter().find(|((s2, id2), a2)| *s2 == s && *id2 != id && c.contains(id2) && a2.as_str() == a) {
-                                return fail(i, "duplicate-address", format!("client_addr({}) and client_addr({}) both report {}", id, other, a));
+                                bail!(i, "duplicate-address", format!("client_addr({}) and client_addr({}) both report {}", id, other, a));
                             }
                             reported.insert((s.clone(), id), a.to_string());
                         }
                         if !c.contains(&id) && field(o, "ud").map(|u| u != "-").unwrap_or(false) {
-                            return fail(i, "lookup-mismatch", format!("user_data({}) = {:?} for a client that is not connected", id, field(o, "ud")));
+                            bail!(i, "lookup-mismatch", format!("user_data({}) = {:?} for a client that is not connected", id, field(o, "ud")));
                         }
                         if let (Some(n), Some(a), Some(b)) = (field(o, "n").and_then(p_u64), o.find(" slots=["), o.find("] pub=")) {
                             if n as usize != c.len() {
-                                return fail(i, "lookup-mismatch", format!("connected_clients() = {} but the events say {:?} are connected", n, c));
+                                bail!(i, "lookup-mismatch", format!("connected_clients() = {} but the events say {:?} are connected", n, c));
                             }
                             if a + 8 <= b {
                                 let sl: Vec<&str> = o[a + 8..b].split(',').filter(|x| !x.is_empty()).collect();
                                 let distinct: HashSet<&&str> = sl.iter().collect();
                                 if sl.len() != c.len() || distinct.len() != sl.len() {
-                                    return fail(i, "lookup-mismatch", format!("clients_slot() = {:?} for {} connected clients", sl, c.len()));
+                                    bail!(i, "lookup-mismatch", format!("clients_slot() = {:?} for {} connected clients", sl, c.len()));
                                 }
                             }
                         }
@@ -5810,20 +6445,20 @@ fn oracle_table(ops: &[String], outs: &[String]) -> Option<OracleFail> {
                 if let (Some(c), Some(id)) = (connected.get(&s), p_u64(t[2])) {
                     let o = &outs[i];
                     if (o == "err:ClientNotFound" && c.contains(&id)) || (o.starts_with("send ") && !c.contains(&id)) {
-                        return fail(i, "lookup-mismatch", format!("generate_payload_packet({}) answered `{}` but the events say connected = {}", id, trunc_s(o, 30), c.contains(&id)));
+                        bail!(i, "lookup-mismatch", format!("generate_payload_packet({}) answered `{}` but the events say connected = {}", id, trunc_s(o, 30), c.contains(&id)));
                     }
                     // payload routing refers to the session that was authenticated for that id: the datagram goes to that
                     // session's address and is sealed under a server-to-client key of a token issued for that id
                     if let (Some((to, d)), Some((a, _))) = (emitted_of(&ops[i], o), how.get(&(s.clone(), id))) {
                         if to != *a {
-                            return fail(i, "payload-misrouted", format!("the payload for client {} (connected from {}) was addressed to {}", id, a, to));
+                            bail!(i, "payload-misrouted", format!("the payload for client {} (connected from {}) was addressed to {}", id, a, to));
                         }
                         if let Some(proto) = protos.get(&s) {
                             let toks_all = tokens.get_or_insert_with(|| tokens_of(ops, outs, ops.len()));
                             let mine = toks_all.iter().any(|k| k.id == id && matches!(try_open(&d, *proto, &k.s2c), Some((5, _, _))));
                             let other = toks_all.iter().find(|k| k.id != id && matches!(try_open(&d, *proto, &k.s2c), Some((5, _, _))));
                             if let (false, Some(k)) = (mine, other) {
-                                return fail(i, "payload-misrouted", format!("the payload for client {} was sealed under the key of client {}'s token", id, k.id));
+                                bail!(i, "payload-misrouted", format!("the payload for client {} was sealed under the key of client {}'s token", id, k.id));
                             }
                         }
                     }
@@ -5835,23 +6470,23 @@ fn oracle_table(ops: &[String], outs: &[String]) -> Option<OracleFail> {
                     let mut addrs = HashSet::new();
                     for sl in d.slots.iter() {
                         if !ids.insert(sl.id) {
-                            return fail(i, "duplicate-client-id", format!("client id {} occupies two slots", sl.id));
+                            bail!(i, "duplicate-client-id", format!("client id {} occupies two slots", sl.id));
                         }
                         if !addrs.insert(sl.addr.clone()) {
-                            return fail(i, "duplicate-address", format!("address {} occupies two slots", sl.addr));
+                            bail!(i, "duplicate-address", format!("address {} occupies two slots", sl.addr));
                         }
                     }
                     let n = d.slots.len() as u64;
                     if n > d.nslots {
-                        return fail(i, "more-clients-than-slots", format!("{} clients in {} slots", n, d.nslots));
+                        bail!(i, "more-clients-than-slots", format!("{} clients in {} slots", n, d.nslots));
                     }
                     if !*lowered.get(&s).unwrap_or(&true) && n > d.max {
-                        return fail(i, "above-max-clients", format!("{} clients connected, max_clients = {} was never lowered", n, d.max));
+                        bail!(i, "above-max-clients", format!("{} clients connected, max_clients = {} was never lowered", n, d.max));
                     }
                     // the table and the event stream agree
                     if let Some(c) = connected.get(&s) {
                         if *c != ids {
-                            return fail(i, "events-table-mismatch", format!("events say {:?} connected, the table holds {:?}", c, ids));
+                            bail!(i, "events-table-mismatch", format!("events say {:?} connected, the table holds {:?}", c, ids));
                         }
                     }
                 }
@@ -5918,6 +6553,21 @@ struct SrvCfg {
 // ----- C05: who gets connected -----------------------------------------------------------------------
 
 fn oracle_connect_justified(ops: &[String], outs: &[String]) -> Option<OracleFail> {
+    oracle_connect_justified_f(ops, outs, |_| true)
+}
+
+/// `keep`: which failure classes are reported (an event that fails in another class is skipped and the walk goes on)
+fn oracle_connect_justified_f(ops: &[String], outs: &[String], keep: fn(&str) -> bool) -> Option<OracleFail> {
+    macro_rules! bail {
+        ($i:expr, $sig:expr, $msg:expr $(,)?) => {{
+            let sig: &str = $sig;
+            if keep(sig) {
+                return fail($i, sig, $msg);
+            } else {
+                return None;
+            }
+        }};
+    }
     let tokens = tokens_of(ops, outs, ops.len());
     let mut servers: HashMap<String, SrvCfg> = HashMap::new();
     // (server, token index, address, server time in s, answered with a datagram)
@@ -6010,7 +6660,7 @@ fn oracle_connect_justified(ops: &[String], outs: &[String]) -> Option<OracleFai
                     let id = p_u64(o[1]).unwrap_or(u64::MAX);
                     let ud = p_hex(o[3]).unwrap_or_default();
                     if o[2] != addr {
-                        return fail(i, "connected-other-address", format!("datagram from {} connected {}", addr, o[2]));
+                        bail!(i, "connected-other-address", format!("datagram from {} connected {}", addr, o[2]));
                     }
                     let cfg = servers.get(&s)?;
                     // ---- content hidden: judge by provenance
@@ -6020,7 +6670,7 @@ fn oracle_connect_justified(ops: &[String], outs: &[String]) -> Option<OracleFai
                         let Some(ti) = cli_tok.get(c) else { return None };
                         let this_obj = (s.clone(), srv_obj.get(&s).copied().unwrap_or(0));
                         if adopted.get(c) != Some(&this_obj) {
-                            return fail(
+                            bail!(
                                 i,
                                 "unjustified-connect:challenge-of-another-server-object",
                                 format!(
@@ -6032,7 +6682,7 @@ fn oracle_connect_justified(ops: &[String], outs: &[String]) -> Option<OracleFai
                         let kt = &tokens[*ti];
                         let ok = kt.id == id && kt.ud == ud && uses.iter().any(|(us, t2, ua, _, ans)| *us == s && t2 == ti && *ua == addr && *ans);
                         if !ok {
-                            return fail(i, "unjustified-connect:token-not-valid-for-this-address-or-time", format!("client {} connected from {} (hidden trace): no answered request with its token from that address", id, addr));
+                            bail!(i, "unjustified-connect:token-not-valid-for-this-address-or-time", format!("client {} connected from {} (hidden trace): no answered request with its token from that address", id, addr));
                         }
                         return None;
                     }
@@ -6044,7 +6694,7 @@ fn oracle_connect_justified(ops: &[String], outs: &[String]) -> Option<OracleFai
                         });
                         if let Some(b) = body {
                             if !issued.contains(&(s.clone(), addr.clone(), b)) {
-                                return fail(
+                                bail!(
                                     i,
                                     "unjustified-connect:challenge-not-issued-by-this-server",
                                     format!("client {} connected from {} on a response that echoes a challenge this server object never issued to that address", id, addr),
@@ -6078,7 +6728,7 @@ fn oracle_connect_justified(ops: &[String], outs: &[String]) -> Option<OracleFai
                         } else {
                             "token-not-valid-for-this-address-or-time"
                         };
-                        return fail(
+                        bail!(
                             i,
                             &format!("unjustified-connect:{}", why),
                             format!("client {} connected from {} with user data {}… : {}", id, addr, trunc_s(o[3], 16), why),
@@ -6106,10 +6756,13 @@ fn oracle_nonce(ops: &[String], outs: &[String]) -> Option<OracleFail> {
     let mut session_key: HashMap<(String, u64), Vec<u8>> = HashMap::new();
     let mut epoch: HashMap<(String, Vec<u8>), usize> = HashMap::new();
     let mut seen: HashMap<(String, Vec<u8>, u64), (usize, Vec<u8>)> = HashMap::new();
+    // the challenge tokens a server object sealed under its challenge key: (server, token sequence) -> (op, sealed token)
+    let mut chal_seen: HashMap<(String, u64), (usize, Vec<u8>)> = HashMap::new();
     walk(ops, outs, &mut |i, t, out, _, em| {
         match t[0] {
             "srv-new" if t.len() == 9 && out == "ok" => {
                 srv_proto.insert(t[1].to_string(), p_u64(t[4]).unwrap_or(0));
+                chal_seen.retain(|k, _| k.0 != t[1]);
             }
             "cli-new" if t.len() == 4 && out == "ok" => {
                 if let Some(b) = p_hex(t[3]) {
@@ -6130,6 +6783,16 @@ fn oracle_nonce(ops: &[String], outs: &[String]) -> Option<OracleFail> {
                         cli.get(t[1]).and_then(|(at, proto, c2s)| try_open(d, *proto, c2s).map(|_| (format!("client {} (created at op {})", t[1], at), c2s.to_vec())))
                     } else {
                         let s = t[1].to_string();
+                        // a challenge packet carries (token sequence ‖ challenge token sealed with that sequence as nonce)
+                        if let Some((2, _, body)) = srv_proto.get(&s).and_then(|proto| tokens.iter().find_map(|k| try_open(d, *proto, &k.s2c))) {
+                            if body.len() == 308 {
+                                let cseq = u64::from_le_bytes(body[..8].try_into().unwrap());
+                                let e = chal_seen.entry((s.clone(), cseq)).or_insert((i, body[8..].to_vec()));
+                                if e.1 != body[8..] {
+                                    result = fail(i, "nonce-reuse:challenge-token", format!("server {}: two different challenge tokens sealed with token sequence {} under the challenge key (ops {} and {})", s, cseq, e.0, i));
+                                }
+                            }
+                        }
                         srv_proto.get(&s).and_then(|proto| tokens.iter().find(|k| try_open(d, *proto, &k.s2c).is_some())).map(|k| {
                             let key = k.s2c.to_vec();
                             if o[0] == "connected" {
@@ -6173,6 +6836,9 @@ fn oracle_mutated_rejected(ops: &[String], outs: &[String]) -> Option<OracleFail
             continue;
         }
         let o = &outs[i + 1];
+        if ops[i + 1].starts_with("srv-rx ") && (o.starts_with("send ") || o.starts_with("connected ") || o.starts_with("payload ")) {
+            return fail(i + 1, "tampered-accepted:srv-rx", format!("a tampered datagram handed to the server was answered `{}`", trunc_s(o, 40)));
+        }
         if o.starts_with("ok") {
             let kind = toks(&ops[i + 1]).first().cloned().unwrap_or("").to_string();
             return fail(i + 1, &format!("tampered-accepted:{}", kind), format!("tampered input was accepted: `{}` -> `{}`", trunc_s(&ops[i + 1], 60), trunc_s(o, 40)));
@@ -6245,12 +6911,56 @@ fn compact_addrs(s: &str) -> String {
 }
 
 fn oracle_roundtrip(ops: &[String], outs: &[String]) -> Option<OracleFail> {
+    // tokens the library builds itself (`tok-gen` = ConnectToken::generate): the public fields are the arguments, the
+    // sealed part opens under the key and carries the same fields; 1..32 addresses are accepted, 0 and 33 are not
+    for i in 0..ops.len().min(outs.len()) {
+        let t = toks(&ops[i]);
+        if t.len() != 9 || t[0] != "tok-gen" || outs[i] == "panic" || outs[i] == "dead" || outs[i] == "bad-op" {
+            continue;
+        }
+        let (Some(now), Some(exp_s), Some(id)) = (p_u64(t[1]), p_u64(t[3]), p_u64(t[4])) else { continue };
+        let n_addrs = if t[6] == "-" { 0 } else { t[6].split(',').count() };
+        let o = &outs[i];
+        let want_err = if n_addrs == 0 {
+            Some("err:NoServerAddressAvailable")
+        } else if n_addrs > 32 {
+            Some("err:MaxHostCount")
+        } else {
+            None
+        };
+        match want_err {
+            Some(e) => {
+                if o != e {
+                    return fail(i, "token-generate:address-count", format!("ConnectToken::generate with {} server addresses answered `{}`, expected `{}`", n_addrs, trunc_s(o, 40), e));
+                }
+            }
+            None => {
+                let create = now / 1_000_000;
+                let want = format!("ok {} {} {} {} {} {} {} consistent=1", id, VERSION_HEX, t[2], create, create.saturating_add(exp_s), t[5], t[6]);
+                if *o != want {
+                    return fail(i, "token-generate:fields", format!("ConnectToken::generate produced `{}`, the arguments say `{}`", trunc_s(o, 120), trunc_s(&want, 120)));
+                }
+            }
+        }
+    }
     for i in 0..ops.len() {
         if ops[i] != "note rt" || i + 2 >= ops.len() || i + 2 >= outs.len() {
             continue;
         }
         let (a, b) = (toks(&ops[i + 1]), toks(&ops[i + 2]));
         let (oa, ob) = (&outs[i + 1], &outs[i + 2]);
+        // a legal value must encode: packets into the full 1400-byte buffer, sealed / written tokens always (the
+        // token ops of the scripts pass well-formed fields only)
+        if !oa.starts_with("ok ") && oa != "panic" && oa != "dead" && oa != "bad-op" {
+            let legal = match a[0] {
+                "nc-enc" if a.len() >= 6 => a[1] == "1400" && (a[5] != "pay" || a.get(6).and_then(|h| p_hex(h)).map(|b| b.len() <= 1300).unwrap_or(false)),
+                "ptok-seal" | "tok-write" => true,
+                _ => false,
+            };
+            if legal {
+                return fail(i + 1, &format!("roundtrip:encode-failed:{}", a[0]), format!("a legal value was not encoded: `{}` -> `{}`", trunc_s(&ops[i + 1], 60), trunc_s(oa, 40)));
+            }
+        }
         let Some(ha) = oa.strip_prefix("ok ") else { continue };
         match (a[0], b[0]) {
             ("nc-enc", "nc-dec") if a.len() >= 6 && b.len() == 5 => {
@@ -6307,6 +7017,25 @@ fn oracle_roundtrip(ops: &[String], outs: &[String]) -> Option<OracleFail> {
 // ----- C04: surfaced payloads ----------------------------------------------------------------------------------
 
 fn oracle_payloads(ops: &[String], outs: &[String]) -> Option<OracleFail> {
+    oracle_payloads_f(ops, outs, |_| true)
+}
+
+/// C07 ("… and genuine traffic afterwards is still accepted"), connected sessions: the `genuine-not-surfaced` clause
+fn oracle_genuine_still_accepted(ops: &[String], outs: &[String]) -> Option<OracleFail> {
+    oracle_payloads_f(ops, outs, |sig| sig.starts_with("genuine-not-surfaced"))
+}
+
+fn oracle_payloads_f(ops: &[String], outs: &[String], keep: fn(&str) -> bool) -> Option<OracleFail> {
+    macro_rules! bail {
+        ($i:expr, $sig:expr, $msg:expr $(,)?) => {{
+            let sig: &str = $sig;
+            if keep(sig) {
+                return fail($i, sig, $msg);
+            } else {
+                return None;
+            }
+        }};
+    }
     // generated datagram -> (sender handle, client id, payload hex)
     let mut by_client: HashMap<Vec<u8>, (String, u64, String)> = HashMap::new();
     let mut by_server: HashMap<Vec<u8>, (String, u64, String)> = HashMap::new();
@@ -6319,6 +7048,10 @@ fn oracle_payloads(ops: &[String], outs: &[String]) -> Option<OracleFail> {
     let mut live_addr: HashSet<(String, String)> = HashSet::new();
     let mut expect = false;
     let mut made: HashMap<String, u64> = HashMap::new();
+    // client handles that are disconnected for good (own `disconnect()`, or seen disconnected in a dump / query)
+    // [interpretation: the statement says "on a connected session" for the converse; the anchor "payload surfaced only in
+    // Connected state" is read as a safety clause]
+    let mut cli_down: HashSet<String> = HashSet::new();
     walk(ops, outs, &mut |i, t, out, input, em| {
         let expected = expect;
         expect = false;
@@ -6339,11 +7072,21 @@ fn oracle_payloads(ops: &[String], outs: &[String]) -> Option<OracleFail> {
                 }
             }
             "cli-new" if t.len() == 4 && out == "ok" => {
+                cli_down.remove(t[1]);
                 if let Some(b) = p_hex(t[3]) {
                     if b.len() >= 8 {
                         cli_id.insert(t[1].to_string(), (u64::from_le_bytes(b[..8].try_into().unwrap()), i));
                     }
                 }
+            }
+            "cli-disc" if t.len() == 2 && out.starts_with("send ") => {
+                cli_down.insert(t[1].to_string());
+            }
+            "cli-dump" if t.len() == 2 && out.starts_with("state=Disconnected") => {
+                cli_down.insert(t[1].to_string());
+            }
+            "cli-q" if t.len() == 2 && field(out, "disconnected") == Some("1") => {
+                cli_down.insert(t[1].to_string());
             }
             "cli-pay" if t.len() == 3 => {
                 if let (Some((_, d)), Some((id, _))) = (em, cli_id.get(t[1])) {
@@ -6375,15 +7118,15 @@ fn oracle_payloads(ops: &[String], outs: &[String]) -> Option<OracleFail> {
                     match by_client.get(d) {
                         Some((_, id, p)) if Some(*id) == p_u64(o[1]) && p == o[2] => {}
                         _ => {
-                            return fail(i, "surfaced-not-generated:server", format!("server surfaced a payload for client {} that the peer never generated in this datagram", o[1]));
+                            bail!(i, "surfaced-not-generated:server", format!("server surfaced a payload for client {} that the peer never generated in this datagram", o[1]));
                         }
                     }
                     let cur = session.get(&(t[1].to_string(), p_u64(o[1]).unwrap_or(0))).cloned().unwrap_or(0);
                     if let Some(prev) = surfaced_srv.insert((t[1].to_string(), d.clone()), cur) {
                         if prev == cur {
-                            return fail(i, "surfaced-twice:server", format!("one generated datagram was surfaced twice by the server within one session (client {})", o[1]));
+                            bail!(i, "surfaced-twice:server", format!("one generated datagram was surfaced twice by the server within one session (client {})", o[1]));
                         }
-                        return fail(
+                        bail!(
                             i,
                             "cross-session-replay",
                             format!("a datagram surfaced in an earlier session of client {} (connected at op {}) was surfaced again after the session was re-established with the same connect token (connected at op {})", o[1], prev, cur),
@@ -6392,28 +7135,31 @@ fn oracle_payloads(ops: &[String], outs: &[String]) -> Option<OracleFail> {
                 } else if expected && out != "panic" && out != "dead" && out != "bad-op" && live_addr.contains(&(t[1].to_string(), t[2].to_string())) && input.map(|d| by_client.contains_key(d)).unwrap_or(false) {
                     // (judged only while the source address is connected and the datagram is a generated one:
                     // a minimised trace that lost the session is not a counterexample)
-                    return fail(i, "genuine-not-surfaced:server", format!("a fresh in-window genuine payload datagram was not surfaced: `{}`", trunc_s(out, 40)));
+                    bail!(i, "genuine-not-surfaced:server", format!("a fresh in-window genuine payload datagram was not surfaced: `{}`", trunc_s(out, 40)));
                 }
             }
             "cli-rx" if t.len() == 3 => {
                 let o = toks(out);
+                if o.len() == 2 && o[0] == "payload" && cli_down.contains(t[1]) {
+                    bail!(i, "surfaced-when-disconnected:client", format!("client {} surfaced a payload after it had disconnected", t[1]));
+                }
                 if o.len() == 2 && o[0] == "payload" {
                     let d = input?;
                     let (id, at) = cli_id.get(t[1]).cloned()?;
                     match by_server.get(d) {
                         Some((_, sid, p)) if *sid == id && p == o[1] => {}
                         _ => {
-                            return fail(i, "surfaced-not-generated:client", format!("client {} surfaced a payload the server never generated for it in this datagram", t[1]));
+                            bail!(i, "surfaced-not-generated:client", format!("client {} surfaced a payload the server never generated for it in this datagram", t[1]));
                         }
                     }
                     if let Some(prev) = surfaced_cli.insert((t[1].to_string(), d.clone()), at) {
                         if prev == at {
-                            return fail(i, "surfaced-twice:client", format!("one generated datagram was surfaced twice by client {}", t[1]));
+                            bail!(i, "surfaced-twice:client", format!("one generated datagram was surfaced twice by client {}", t[1]));
                         }
-                        return fail(i, "cross-session-replay", format!("client {} surfaced a datagram that an earlier client instance with the same token had surfaced", t[1]));
+                        bail!(i, "cross-session-replay", format!("client {} surfaced a datagram that an earlier client instance with the same token had surfaced", t[1]));
                     }
                 } else if expected && out != "panic" && out != "dead" && out != "bad-op" && input.map(|d| by_server.contains_key(d)).unwrap_or(false) {
-                    return fail(i, "genuine-not-surfaced:client", format!("a fresh in-window genuine payload datagram was not surfaced: `{}`", trunc_s(out, 40)));
+                    bail!(i, "genuine-not-surfaced:client", format!("a fresh in-window genuine payload datagram was not surfaced: `{}`", trunc_s(out, 40)));
                 }
             }
             _ => {}
@@ -6468,10 +7214,38 @@ fn oracle_token_directions(ops: &[String], outs: &[String]) -> Option<OracleFail
     None
 }
 
+/// C16 ("any byte string that decodes successfully re-encodes to bytes that decode to the same value"): `note rt2` stands
+/// between a successful decode (the op before it) and the re-encoding of the printed value (the op after it), followed
+/// by the decode of those bytes: the re-encoding succeeds and the second decode prints the same value.
+fn oracle_redecode(ops: &[String], outs: &[String]) -> Option<OracleFail> {
+    let n = ops.len().min(outs.len());
+    for i in 1..n {
+        if ops[i] != "note rt2" || !outs[i - 1].starts_with("ok ") || i + 1 >= n {
+            continue;
+        }
+        let kind = toks(&ops[i - 1]).first().cloned().unwrap_or("").to_string();
+        let enc = &outs[i + 1];
+        if enc == "panic" || enc == "dead" || enc == "bad-op" {
+            continue;
+        }
+        if !enc.starts_with("ok ") {
+            return fail(i + 1, &format!("redecode:encode-failed:{}", kind), format!("`{}` decoded to `{}` but that value does not encode: `{}`", trunc_s(&ops[i - 1], 40), trunc_s(&outs[i - 1], 60), trunc_s(enc, 40)));
+        }
+        if i + 2 < n && toks(&ops[i + 2]).first() == toks(&ops[i - 1]).first() {
+            // (the replay window part of an nc-dec line is not part of the value)
+            let val = |o: &str| o.split(" rp=").next().unwrap_or("").to_string();
+            if val(&outs[i + 2]) != val(&outs[i - 1]) {
+                return fail(i + 2, &format!("redecode:value-changed:{}", kind), format!("decoded `{}`, re-encoded and decoded again: `{}`", trunc_s(&outs[i - 1], 70), trunc_s(&outs[i + 2], 70)));
+            }
+        }
+    }
+    None
+}
+
 /// C10 ("lookups by id (address, user data, …) refer to the session that was authenticated for that id"): the
 /// user-data clause of `nc-connect-justified`
 fn oracle_connect_user_data(ops: &[String], outs: &[String]) -> Option<OracleFail> {
-    oracle_connect_justified(ops, outs).filter(|f| f.signature.ends_with("user-data-of-another-token"))
+    oracle_connect_justified_f(ops, outs, |sig| sig.ends_with("user-data-of-another-token"))
 }
 
 // ----- C18: timeouts fire exactly at the first update past the deadline ---------------------------------------------
@@ -6847,6 +7621,173 @@ fn oracle_stale_handshake_harmless(ops: &[String], outs: &[String]) -> Option<Or
     })
 }
 
+/// C18 ("half-open sessions vanish when their token expires"): a half-open handshake = a request from A carrying a token
+/// issued in the trace, answered towards A with a challenge under that token's key. Once a server update has left the
+/// clock's second beyond the token's expiry second, a response from A under that token's key completes nothing.
+fn oracle_half_open_expiry(ops: &[String], outs: &[String]) -> Option<OracleFail> {
+    let tokens = tokens_of(ops, outs, ops.len());
+    // server -> (protocol id, clock in µs)
+    let mut srv: HashMap<String, (u64, u64)> = HashMap::new();
+    // (server, address) -> (token, expired at an update since the challenge)
+    let mut pend: HashMap<(String, String), (usize, bool)> = HashMap::new();
+    walk(ops, outs, &mut |i, t, out, input, em| {
+        if t.len() < 2 {
+            return None;
+        }
+        match t[0] {
+            "srv-new" if t.len() == 9 && out == "ok" => {
+                srv.insert(t[1].to_string(), (p_u64(t[4]).unwrap_or(0), p_u64(t[2]).unwrap_or(0)));
+                pend.retain(|k, _| k.0 != t[1]);
+            }
+            "srv-upd" if t.len() == 3 && out == "ok" => {
+                if let Some(sv) = srv.get_mut(t[1]) {
+                    sv.1 = sv.1.saturating_add(p_u64(t[2]).unwrap_or(0));
+                    let now_s = sv.1 / 1_000_000;
+                    for (k, v) in pend.iter_mut() {
+                        if k.0 == t[1] && now_s > tokens[v.0].expire {
+                            v.1 = true;
+                        }
+                    }
+                }
+            }
+            "srv-rx" if t.len() == 4 => {
+                let (Some(sv), Some(d)) = (srv.get(t[1]), input) else { return None };
+                let key = (t[1].to_string(), t[2].to_string());
+                if d.len() >= 1078 && d[0] & 0xf == 0 {
+                    if let Some(ti) = tokens.iter().position(|k| k.private == d[54..1078]) {
+                        match em {
+                            Some((to, e)) if *to == t[2] && matches!(try_open(e, sv.0, &tokens[ti].s2c), Some((2, _, _))) => {
+                                pend.insert(key, (ti, false));
+                            }
+                            _ => {
+                                pend.remove(&key);
+                            }
+                        }
+                    }
+                } else if out.starts_with("connected ") {
+                    if let Some((ti, true)) = pend.get(&key).copied() {
+                        if matches!(try_open(d, sv.0, &tokens[ti].c2s), Some((3, _, _))) {
+                            return fail(
+                                i,
+                                "expired-half-open-completed",
+                                format!("the half-open handshake of client {} at {} (token expiry second {}) was completed by a response although an update had moved the server's clock past that second", tokens[ti].id, t[2], tokens[ti].expire),
+                            );
+                        }
+                    }
+                    pend.remove(&key);
+                }
+            }
+            _ => {}
+        }
+        None
+    })
+}
+
+/// C18, client side, on a clock reconstructed from the ops (`cli-new` + `cli-upd`), never from the client's own `recv=`:
+///   hi = latest time a datagram was handed to the client that opens under its token's server-to-client key and that it
+///        had not been handed before (anything else — repeats, junk, foreign keys — cannot be a fresh authentic packet);
+///   lo = latest time a `cli-rx` surfaced a payload (the peer was certainly heard).
+/// A client seen connected that is updated to a time later than hi + timeout must be seen disconnected at the next
+/// `cli-q` / `cli-dump` ("… is disconnected at the next update (on both sides)", "forged or replayed packets do not
+/// postpone a timeout"); a client seen `ConnectionTimedOut` at a time <= lo + timeout was timed out early ("a peer from
+/// which authentic packets keep arriving … is never timed out").
+fn oracle_client_timeout(ops: &[String], outs: &[String]) -> Option<OracleFail> {
+    struct C {
+        now_us: u128,
+        proto: u64,
+        s2c: [u8; 32],
+        timeout: i32,
+        hi: u128,
+        lo: Option<u128>,
+        seen: HashSet<Vec<u8>>,
+        connected_seen: bool,
+        must_be_down: Option<usize>,
+        noise: usize,
+        opaque: bool,
+    }
+    let mut cl: HashMap<String, C> = HashMap::new();
+    walk(ops, outs, &mut |i, t, out, input, _| {
+        if t.len() < 2 || out == "panic" || out == "dead" || out == "bad-op" {
+            return None;
+        }
+        match t[0] {
+            "cli-new" if t.len() == 4 => {
+                cl.remove(t[1]);
+                if out == "ok" {
+                    if let (Some(now), Some(tok)) = (p_u64(t[2]), p_hex(t[3]).and_then(|b| ConnectToken::read(&mut &b[..]).ok())) {
+                        cl.insert(
+                            t[1].to_string(),
+                            C { now_us: now as u128, proto: tok.protocol_id, s2c: tok.server_to_client_key, timeout: tok.timeout_seconds, hi: now as u128, lo: None, seen: HashSet::new(), connected_seen: false, must_be_down: None, noise: 0, opaque: false },
+                        );
+                    }
+                }
+            }
+            "cli-newt" => {
+                cl.remove(t[1]);
+            }
+            "cli-rx" if t.len() == 3 => {
+                let c = cl.get_mut(t[1])?;
+                match input {
+                    None => c.opaque = true,
+                    Some(d) if t[2].starts_with('@') && d.first() == Some(&0xff) => c.opaque = true,
+                    Some(d) => {
+                        let fresh = try_open(d, c.proto, &c.s2c).is_some() && !c.seen.contains(d);
+                        c.seen.insert(d.clone());
+                        if fresh {
+                            c.hi = c.now_us;
+                            c.noise = 0;
+                        } else {
+                            c.noise += 1;
+                        }
+                        if out.starts_with("payload ") {
+                            c.hi = c.now_us;
+                            c.lo = Some(c.now_us);
+                        }
+                    }
+                }
+            }
+            "cli-upd" if t.len() == 3 => {
+                let c = cl.get_mut(t[1])?;
+                c.now_us += p_u64(t[2]).unwrap_or(0) as u128;
+                if c.connected_seen && !c.opaque && c.timeout > 0 && c.now_us > c.hi + c.timeout as u128 * 1_000_000 && c.must_be_down.is_none() {
+                    c.must_be_down = Some(i);
+                }
+            }
+            "cli-q" | "cli-dump" if t.len() == 2 => {
+                let c = cl.get_mut(t[1])?;
+                let (connected, timed_out) = if t[0] == "cli-q" {
+                    (field(out, "connected") == Some("1"), field(out, "reason") == Some("ConnectionTimedOut"))
+                } else {
+                    (field(out, "state") == Some("Connected"), field(out, "state") == Some("Disconnected(ConnectionTimedOut)"))
+                };
+                if connected {
+                    if let Some(at) = c.must_be_down {
+                        return fail(
+                            i,
+                            if c.noise > 0 { "timeout-postponed:client" } else { "timeout-missed:client" },
+                            format!(
+                                "client {}: the last datagram that can have been a fresh authentic one arrived at {} us, timeout {} s; it was updated to a later time at op {} and still reports connected at {} us ({} replayed / unauthentic datagram(s) since then)",
+                                t[1], c.hi, c.timeout, at, c.now_us, c.noise
+                            ),
+                        );
+                    }
+                    c.connected_seen = true;
+                } else {
+                    c.connected_seen = false;
+                    c.must_be_down = None;
+                    if let (true, Some(lo), false) = (timed_out, c.lo, c.opaque) {
+                        if c.timeout <= 0 || c.now_us <= lo + c.timeout as u128 * 1_000_000 {
+                            return fail(i, "timeout-early:client", format!("client {} surfaced a payload at {} us, timeout {} s, and reports ConnectionTimedOut at {} us", t[1], lo, c.timeout, c.now_us));
+                        }
+                    }
+                }
+            }
+            _ => {}
+        }
+        None
+    })
+}
+
 /// C18 (progress): where the script knows a handshake must complete, it does
 fn oracle_expect_connected(ops: &[String], outs: &[String]) -> Option<OracleFail> {
     for i in 0..ops.len() {
@@ -7172,6 +8113,14 @@ fn oracle_silent_to_invalid(ops: &[String], outs: &[String]) -> Option<OracleFai
                                 }
                             }
                         }
+                    } else if ty != 3 && answered && !s.addrs.contains(&addr) && !(t[3].starts_with('@') && d[0] == 0xff) {
+                        // (not judged: a datagram whose content the trace hides — `nc-quiet`, referenced by index)
+                        // neither a (full-size) request nor a response, from an address without a completed handshake
+                        result = fail(
+                            i,
+                            "answered-non-handshake",
+                            format!("a datagram of type {} ({} bytes) from {}, which has no completed handshake, was answered `{}`", ty, d.len(), addr, trunc_s(out, 30)),
+                        );
                     } else if ty == 3 && answered {
                         // ---- connection response that got an answer: it must belong to a handshake of this address
                         let opened = tokens.iter().enumerate().find_map(|(ti, k)| try_open(d, s.cfg.proto, &k.c2s).map(|(_, _, body)| (ti, body)));
@@ -7241,27 +8190,42 @@ fn oracle_silent_to_invalid(ops: &[String], outs: &[String]) -> Option<OracleFai
 
 const NC_ALL: &[&str] = &["nc-"];
 
+const FIXED_PROFILES: &[&str] = &["nc-regress", "nc-known", "nc-table-full", "nc-pending-full", "nc-entry-cursor", "nc-seq-wrap", "nc-prefix-sweep"];
+
 pub fn oracles() -> Vec<Oracle> {
+    let mut v = oracles_main();
+    for prop in ["C04", "C05", "C07", "C10", "C13", "C16", "C17", "C18", "C19", "C20"] {
+        v.push(Oracle { prop, name: "nc-fixed-script-complete", engines: FIXED_PROFILES, check: oracle_fixed_complete });
+    }
+    v
+}
+
+fn oracles_main() -> Vec<Oracle> {
     vec![
         Oracle { prop: "C07", name: "nc-no-unwind", engines: NC_ALL, check: oracle_no_panic },
-        Oracle { prop: "C07", name: "nc-unauthentic-noop", engines: &["nc-session", "nc-hostile", "nc-attacker", "nc-regress"], check: oracle_hostile_noop },
+        Oracle { prop: "C07", name: "nc-unauthentic-noop", engines: &["nc-session", "nc-hostile", "nc-attacker", "nc-regress", "nc-prefix-sweep"], check: oracle_hostile_noop },
+        Oracle { prop: "C07", name: "nc-genuine-still-accepted", engines: &["nc-session", "nc-hostile", "nc-regress", "nc-prefix-sweep"], check: oracle_genuine_still_accepted },
         Oracle { prop: "C13", name: "nc-datagram-size", engines: NC_ALL, check: oracle_size },
         Oracle { prop: "C13", name: "nc-payload-limit", engines: NC_ALL, check: oracle_payload_limit },
         Oracle { prop: "C19", name: "nc-no-amplification", engines: NC_ALL, check: oracle_amplification },
         Oracle { prop: "C10", name: "nc-connection-table", engines: &["nc-handshake", "nc-attacker", "nc-session", "nc-hostile", "nc-regress", "nc-pending-full"], check: oracle_table },
         Oracle { prop: "C05", name: "nc-connect-justified", engines: &["nc-handshake", "nc-attacker", "nc-session", "nc-hostile", "nc-regress", "nc-table-full"], check: oracle_connect_justified },
-        Oracle { prop: "C17", name: "nc-nonce-unique", engines: &["nc-handshake", "nc-session", "nc-hostile", "nc-regress", "nc-failover", "nc-seq-wrap"], check: oracle_nonce },
-        Oracle { prop: "C17", name: "nc-tampered-rejected", engines: &["nc-wire", "nc-regress", "nc-handshake", "nc-session", "nc-failover"], check: oracle_mutated_rejected },
+        Oracle { prop: "C17", name: "nc-nonce-unique", engines: &["nc-handshake", "nc-session", "nc-hostile", "nc-regress", "nc-failover", "nc-seq-wrap", "nc-attacker"], check: oracle_nonce },
+        Oracle { prop: "C17", name: "nc-tampered-rejected", engines: &["nc-wire", "nc-regress", "nc-handshake", "nc-session", "nc-failover", "nc-attacker", "nc-hostile"], check: oracle_mutated_rejected },
+        Oracle { prop: "C16", name: "nc-redecode", engines: &["nc-wire"], check: oracle_redecode },
         Oracle { prop: "C16", name: "nc-wire-roundtrip", engines: &["nc-wire", "nc-regress"], check: oracle_roundtrip },
         Oracle { prop: "C04", name: "nc-payloads-authentic-once", engines: &["nc-session", "nc-handshake", "nc-hostile", "nc-known", "nc-regress", "nc-failover"], check: oracle_payloads },
         Oracle { prop: "C04", name: "nc-no-reflection", engines: &["nc-session", "nc-hostile", "nc-regress", "nc-handshake"], check: oracle_reflection },
         Oracle { prop: "C04", name: "nc-token-directions", engines: &["nc-regress"], check: oracle_token_directions },
+        Oracle { prop: "C05", name: "nc-reported-connected", engines: &["nc-handshake", "nc-attacker", "nc-session", "nc-hostile", "nc-regress"], check: oracle_reported_connected },
         Oracle { prop: "C10", name: "nc-connect-user-data", engines: &["nc-attacker", "nc-regress", "nc-handshake"], check: oracle_connect_user_data },
         Oracle { prop: "C04", name: "nc-window-once", engines: &["nc-window"], check: oracle_window_once },
         Oracle { prop: "C20", name: "nc-stale-handshake-harmless", engines: &["nc-attacker", "nc-regress"], check: oracle_stale_handshake_harmless },
+        Oracle { prop: "C18", name: "nc-half-open-expiry", engines: &["nc-handshake", "nc-session", "nc-regress", "nc-failover", "nc-hostile", "nc-attacker", "nc-pending-full"], check: oracle_half_open_expiry },
+        Oracle { prop: "C18", name: "nc-client-timeout", engines: &["nc-handshake", "nc-session", "nc-regress", "nc-failover", "nc-hostile", "nc-attacker"], check: oracle_client_timeout },
         Oracle { prop: "C18", name: "nc-handshake-completes", engines: &["nc-regress", "nc-attacker", "nc-pending-full"], check: oracle_expect_connected },
-        Oracle { prop: "C18", name: "nc-lossless-phase-connects", engines: &["nc-failover", "nc-regress"], check: oracle_expect_up },
-        Oracle { prop: "C18", name: "nc-failover-patient", engines: &["nc-failover", "nc-handshake", "nc-regress", "nc-session", "nc-wire"], check: oracle_failover_patient },
+        Oracle { prop: "C18", name: "nc-lossless-phase-connects", engines: &["nc-failover", "nc-regress", "nc-handshake", "nc-pending-full"], check: oracle_expect_up },
+        Oracle { prop: "C18", name: "nc-failover-patient", engines: &["nc-failover", "nc-handshake", "nc-regress", "nc-session"], check: oracle_failover_patient },
         Oracle { prop: "C18", name: "nc-failover-tries-all", engines: &["nc-failover", "nc-handshake", "nc-regress"], check: oracle_failover_tries_all },
         Oracle { prop: "C19", name: "nc-silent-to-invalid", engines: &["nc-handshake", "nc-attacker", "nc-hostile", "nc-session", "nc-regress", "nc-failover", "nc-known", "nc-pending-full", "nc-entry-cursor"], check: oracle_silent_to_invalid },
         Oracle { prop: "C05", name: "nc-silent-to-invalid", engines: &["nc-handshake", "nc-attacker", "nc-regress", "nc-table-full", "nc-entry-cursor"], check: oracle_silent_to_invalid },
